@@ -208,3 +208,1778 @@ Proof.
         symmetry. exact Hext.
       * apply assoc_none_keys in Ha. contradiction.
 Qed.
+
+(* ------------------------------------------------------------------ loops *)
+
+Lemma fold_res_inv : forall {A S} (P : S -> Prop) (step : A -> S -> res S) l s s',
+  (forall a x x', In a l -> P x -> step a x = Ok x' -> P x') -> P s -> fold_res step l s = Ok s' -> P s'.
+Proof.
+  intros A S P step l. induction l as [|a r IH]; intros s s' Hstep HP H; cbn in H.
+  - injection H as <-. exact HP.
+  - destruct (step a s) as [s1| |] eqn:Hs; try discriminate.
+    apply (IH s1 s'); [|apply (Hstep a s s1); [left; reflexivity|exact HP|exact Hs]|exact H].
+    intros a' x x' Hin. apply Hstep. right. exact Hin.
+Qed.
+
+Lemma fold_res_all_ok : forall {A S} (step : A -> S -> res S) l s,
+  (forall a x, In a l -> exists x', step a x = Ok x') -> exists s', fold_res step l s = Ok s'.
+Proof.
+  intros A S step l. induction l as [|a r IH]; intros s H; cbn.
+  - exists s. reflexivity.
+  - destruct (H a s (or_introl eq_refl)) as [x' Hx]. rewrite Hx. apply IH. intros a' x Hin. apply H. right. exact Hin.
+Qed.
+
+Lemma forall_res_true : forall {A} (step : A -> res bool) l,
+  forall_res step l = Ok true <-> (forall a, In a l -> step a = Ok true).
+Proof.
+  intros A step l. induction l as [|a r IH]; cbn.
+  - split; [intros _ a []|reflexivity].
+  - split.
+    + intros H. destruct (step a) as [[|]| |] eqn:Hs; try discriminate.
+      intros a' [<-|Hin]; [exact Hs|]. apply IH; assumption.
+    + intros H. rewrite (H a (or_introl eq_refl)). apply IH. intros a' Hin. apply H. right. exact Hin.
+Qed.
+
+(* ------------------------------------------------------------------ unfolding equations *)
+
+Lemma is_base_h_S : forall f' w h mi name, is_base_h (S f') w h mi name =
+    match lookup w mi name with
+    | None => Crash
+    | Some (Import mj r) =>
+        if Nat.ltb mj (length w)
+        then let e := new_epoch h mi mj in
+             if import_cycle w h e then Ok false
+             else match lookup w mj r with
+                  | None => Ok false
+                  | Some _ => is_base_h f' w (e :: h) mj r
+                  end
+        else Ok false
+    | Some (Defs l) =>
+        Ok ((Nat.eqb (length l) 0) && (if is_std_name name then is_base_name name else true))
+    end.
+Proof. reflexivity. Qed.
+
+Lemma perform_test_S : forall d f' w h mi name, perform_test d (S f') w h mi name =
+    match lookup w mi name with
+    | None => Crash
+    | Some (Import mj r) =>
+        match lookup w mj r with
+        | None => Ok None
+        | Some _ =>
+            let e := new_epoch h mi mj in
+            if import_cycle w h e then Ok None
+            else perform_test d f' w (e :: h) mj r
+        end
+    | Some (Defs l) =>
+        fold_opt (fun c h =>
+          if is_std_name (uc_ref c) then Ok (Some h)
+          else match lookup w mi (uc_ref c) with
+               | Some _ => perform_test d f' w h mi (uc_ref c)
+               | None => Ok (if d then None else Some h)
+               end) l h
+    end.
+Proof. reflexivity. Qed.
+
+Lemma defined_sem_S : forall f' w mi name, defined_sem (S f') w mi name =
+    match lookup w mi name with
+    | None => Crash
+    | Some (Import mj r) =>
+        match lookup w mj r with None => Ok false | Some _ => defined_sem f' w mj r end
+    | Some (Defs l) =>
+        forall_res (fun c =>
+          if is_std_name (uc_ref c) then Ok true
+          else match lookup w mi (uc_ref c) with
+               | Some _ => defined_sem f' w mi (uc_ref c)
+               | None => Ok false
+               end) l
+    end.
+Proof. reflexivity. Qed.
+
+Lemma umap_go_S : forall fx f' w mi name e acc, umap_go fx (S f') w mi name e acc =
+    match is_base (S f') w mi name with
+    | Ok true => Ok (madd name e acc)
+    | Ok false =>
+        match lookup w mi name with
+        | None => Crash
+        | Some (Import mj r) =>
+            if is_std_name name then Ok (add_std name e acc)
+            else
+            match lookup w mj r with
+            | None => Crash
+            | Some _ => umap_go fx f' w mj r (if fx_import fx then e else 1) acc
+            end
+        | Some (Defs l) =>
+            if (Nat.eqb (length l) 0) && is_std_name name then Ok (add_std name e acc)
+            else
+              fold_res (fun c a =>
+                if is_std_name (uc_ref c) then Ok (add_std (uc_ref c) (uc_exp c * e) a)
+                else match lookup w mi (uc_ref c) with
+                     | None => Crash
+                     | Some _ => umap_go fx f' w mi (uc_ref c) (uc_exp c * e) a
+                     end) l acc
+        end
+    | OutOfFuel => OutOfFuel
+    | Crash => Crash
+    end.
+Proof. reflexivity. Qed.
+
+(* ------------------------------------------------------------------ the library's "defined" implies fully defined *)
+
+Lemma perform_test_sound : forall f w h mi name h',
+  perform_test true f w h mi name = Ok (Some h') -> defined_sem f w mi name = Ok true.
+Proof.
+  induction f as [|f' IH]; intros w h mi name h' H; [discriminate|].
+  rewrite perform_test_S in H. rewrite defined_sem_S.
+  destruct (lookup w mi name) as [[l|mj r]|] eqn:Hl; [| |discriminate].
+  - apply forall_res_true. clear Hl. revert h H. induction l as [|c rest IHl]; intros h H a Hin; [destruct Hin|].
+    cbn [fold_opt] in H.
+    destruct (is_std_name (uc_ref c)) eqn:Hstd.
+    + destruct Hin as [<-|Hin]; [rewrite Hstd; reflexivity|]. apply (IHl h H a Hin).
+    + destruct (lookup w mi (uc_ref c)) as [d|] eqn:Hlc; [|discriminate].
+      destruct (perform_test true f' w h mi (uc_ref c)) as [[h1|]| |] eqn:Hp; try discriminate.
+      destruct Hin as [<-|Hin].
+      * rewrite Hstd, Hlc. apply (IH w h mi (uc_ref c) h1 Hp).
+      * apply (IHl h1 H a Hin).
+  - destruct (lookup w mj r) as [d|] eqn:Hlt; [|discriminate].
+    cbv zeta in H. destruct (import_cycle w h (new_epoch h mi mj)); [discriminate|].
+    apply (IH w _ mj r h' H).
+Qed.
+
+Lemma is_defined_sound : forall f w mi name, is_defined f w mi name = Ok true -> defined_sem f w mi name = Ok true.
+Proof.
+  intros f w mi name H. unfold is_defined, test_result in H.
+  destruct (perform_test true f w [] mi name) as [[h'|]| |] eqn:Hp; try discriminate.
+  apply (perform_test_sound f w [] mi name h' Hp).
+Qed.
+
+(* ------------------------------------------------------------------ defined units have a map *)
+
+Lemma defined_is_base_ok : forall f w h mi name, defined_sem f w mi name = Ok true ->
+  exists b, is_base_h f w h mi name = Ok b.
+Proof.
+  induction f as [|f' IH]; intros w h mi name H; [discriminate|].
+  rewrite defined_sem_S in H. rewrite is_base_h_S.
+  destruct (lookup w mi name) as [[l|mj r]|] eqn:Hl; [| |discriminate].
+  - eexists. reflexivity.
+  - destruct (lookup w mj r) as [d|] eqn:Hlt; [|discriminate].
+    destruct (Nat.ltb mj (length w)); [|eexists; reflexivity].
+    cbv zeta. destruct (import_cycle w h (new_epoch h mi mj)); [eexists; reflexivity|].
+    apply IH. exact H.
+Qed.
+
+Lemma defined_children : forall f' w mi name l c,
+  defined_sem (S f') w mi name = Ok true -> lookup w mi name = Some (Defs l) -> In c l ->
+  is_std_name (uc_ref c) = false ->
+  lookup w mi (uc_ref c) <> None /\ defined_sem f' w mi (uc_ref c) = Ok true.
+Proof.
+  intros f' w mi name l c H Hl Hin Hstd. rewrite defined_sem_S, Hl in H.
+  rewrite forall_res_true in H. specialize (H c Hin). rewrite Hstd in H.
+  destruct (lookup w mi (uc_ref c)); [|discriminate]. split; [discriminate|exact H].
+Qed.
+
+Lemma defined_umap_ok : forall fx f w mi name e acc, defined_sem f w mi name = Ok true ->
+  exists m, umap_go fx f w mi name e acc = Ok m.
+Proof.
+  intros fx. induction f as [|f' IH]; intros w mi name e acc H; [discriminate|].
+  rewrite umap_go_S. destruct (defined_is_base_ok (S f') w [] mi name H) as [b Hb].
+  unfold is_base. rewrite Hb. destruct b; [eexists; reflexivity|].
+  pose proof H as H0. rewrite defined_sem_S in H.
+  destruct (lookup w mi name) as [[l|mj r]|] eqn:Hl; [| |discriminate].
+  - destruct (Nat.eqb (length l) 0 && is_std_name name); [eexists; reflexivity|].
+    apply fold_res_all_ok. intros c a Hin.
+    destruct (is_std_name (uc_ref c)) eqn:Hstd; [eexists; reflexivity|].
+    destruct (defined_children f' w mi name l c H0 Hl Hin Hstd) as [Hne Hd].
+    destruct (lookup w mi (uc_ref c)); [|contradiction Hne; reflexivity].
+    apply IH. exact Hd.
+  - destruct (is_std_name name); [eexists; reflexivity|].
+    destruct (lookup w mj r) as [d|] eqn:Hlt; [|discriminate].
+    apply IH. exact H.
+Qed.
+
+(* ------------------------------------------------------------------ maps stay well formed *)
+
+Lemma wfmap_add_std : forall n e m, wfmap m -> wfmap (add_std n e m).
+Proof.
+  intros n e m. unfold add_std. generalize (std_components n). intros l. revert m.
+  induction l as [|c r IH]; intros m H; cbn; [exact H|]. apply IH. apply wfmap_madd. exact H.
+Qed.
+
+Lemma umap_go_wf : forall fx f w mi name e acc m, wfmap acc -> umap_go fx f w mi name e acc = Ok m -> wfmap m.
+Proof.
+  intros fx. induction f as [|f' IH]; intros w mi name e acc m Hwf H; [discriminate|].
+  rewrite umap_go_S in H.
+  destruct (is_base (S f') w mi name) as [[|]| |]; try discriminate.
+  - injection H as <-. apply wfmap_madd. exact Hwf.
+  - destruct (lookup w mi name) as [[l|mj r]|]; [| |discriminate].
+    + destruct (Nat.eqb (length l) 0 && is_std_name name).
+      * injection H as <-. apply wfmap_add_std. exact Hwf.
+      * revert H. apply fold_res_inv; [|exact Hwf].
+        intros c x x' _ Hx Hs. destruct (is_std_name (uc_ref c)).
+        -- injection Hs as <-. apply wfmap_add_std. exact Hx.
+        -- destruct (lookup w mi (uc_ref c)); [|discriminate]. apply (IH _ _ _ _ _ _ Hx Hs).
+    + destruct (is_std_name name).
+      * injection H as <-. apply wfmap_add_std. exact Hwf.
+      * destruct (lookup w mj r); [|discriminate]. apply (IH _ _ _ _ _ _ Hwf H).
+Qed.
+
+Lemma define_units_map_wf : forall fx f w u m, define_units_map fx f w u = Ok m -> wfmap m /\ clean m.
+Proof.
+  intros fx f w u m H. unfold define_units_map in H.
+  destruct (umap_go fx f w (fst u) (snd u) 1 []) as [m0| |] eqn:Hg; try discriminate.
+  injection H as <-. split; [|apply clean_clean_map].
+  apply wfmap_filter. apply (umap_go_wf _ _ _ _ _ _ _ _ wfmap_nil Hg).
+Qed.
+
+Lemma defined_map_ok : forall fx f w u, is_defined f w (fst u) (snd u) = Ok true ->
+  exists m, define_units_map fx f w u = Ok m.
+Proof.
+  intros fx f w u H. apply is_defined_sound in H.
+  destruct (defined_umap_ok fx f w (fst u) (snd u) 1 [] H) as [m Hm].
+  unfold define_units_map. rewrite Hm. eexists. reflexivity.
+Qed.
+
+(* ------------------------------------------------------------------ compatible *)
+
+Lemma compatible_spec : forall fx f w a b,
+  compatible fx f w (Some a) (Some b) = Ok true <->
+  is_defined f w (fst a) (snd a) = Ok true /\ is_defined f w (fst b) (snd b) = Ok true /\
+  exists ma mb, define_units_map fx f w a = Ok ma /\ define_units_map fx f w b = Ok mb /\
+                forall k, get ma k == get mb k.
+Proof.
+  intros fx f w a b. unfold compatible. split.
+  - intros H.
+    destruct (is_defined f w (fst a) (snd a)) as [[|]| |]; try discriminate.
+    destruct (is_defined f w (fst b) (snd b)) as [[|]| |]; try discriminate.
+    destruct (define_units_map fx f w a) as [ma| |] eqn:Ha; try discriminate.
+    destruct (define_units_map fx f w b) as [mb| |] eqn:Hb; try discriminate.
+    injection H as H. split; [reflexivity|]. split; [reflexivity|]. exists ma, mb. split; [reflexivity|]. split; [reflexivity|].
+    destruct (define_units_map_wf _ _ _ _ _ Ha) as [W1 C1]. destruct (define_units_map_wf _ _ _ _ _ Hb) as [W2 C2].
+    apply (maps_equal_iff ma mb W1 W2 C1 C2). exact H.
+  - intros [Ha [Hb [ma [mb [Hma [Hmb Hext]]]]]]. rewrite Ha, Hb, Hma, Hmb. f_equal.
+    destruct (define_units_map_wf _ _ _ _ _ Hma) as [W1 C1]. destruct (define_units_map_wf _ _ _ _ _ Hmb) as [W2 C2].
+    apply (maps_equal_iff ma mb W1 W2 C1 C2). exact Hext.
+Qed.
+
+(** compatible holds iff both are defined and the cleaned exponent maps are extensionally equal. *)
+Lemma compatible_iff_same_maps : forall fx f w a b ma mb,
+  is_defined f w (fst a) (snd a) = Ok true -> is_defined f w (fst b) (snd b) = Ok true ->
+  define_units_map fx f w a = Ok ma -> define_units_map fx f w b = Ok mb ->
+  (compatible fx f w (Some a) (Some b) = Ok true <-> forall k, get ma k == get mb k).
+Proof.
+  intros fx f w a b ma mb Da Db Ha Hb. rewrite compatible_spec. split.
+  - intros [_ [_ [ma' [mb' [Ha' [Hb' Hext]]]]]]. rewrite Ha in Ha'. rewrite Hb in Hb'.
+    injection Ha' as <-. injection Hb' as <-. exact Hext.
+  - intros Hext. split; [exact Da|]. split; [exact Db|]. exists ma, mb. auto.
+Qed.
+
+Lemma compatible_refl : forall fx f w a, is_defined f w (fst a) (snd a) = Ok true ->
+  compatible fx f w (Some a) (Some a) = Ok true.
+Proof.
+  intros fx f w a Da. apply compatible_spec. split; [exact Da|]. split; [exact Da|].
+  destruct (defined_map_ok fx f w a Da) as [m Hm]. exists m, m. split; [exact Hm|]. split; [exact Hm|].
+  intros k. reflexivity.
+Qed.
+
+Lemma compatible_sym : forall fx f w a b, compatible fx f w a b = Ok true -> compatible fx f w b a = Ok true.
+Proof.
+  intros fx f w [a|] [b|] H; try (cbn in H; discriminate).
+  apply compatible_spec in H. destruct H as [Da [Db [ma [mb [Ha [Hb Hext]]]]]].
+  apply compatible_spec. split; [exact Db|]. split; [exact Da|]. exists mb, ma. split; [exact Hb|]. split; [exact Ha|].
+  intros k. symmetry. apply Hext.
+Qed.
+
+Lemma compatible_trans : forall fx f w a b c,
+  compatible fx f w a b = Ok true -> compatible fx f w b c = Ok true -> compatible fx f w a c = Ok true.
+Proof.
+  intros fx f w [a|] [b|] [c|] H1 H2; try (cbn in H1; discriminate); try (cbn in H2; discriminate).
+  apply compatible_spec in H1. destruct H1 as [Da [Db [ma [mb [Ha [Hb Hext]]]]]].
+  apply compatible_spec in H2. destruct H2 as [_ [Dc [mb' [mc [Hb' [Hc Hext']]]]]].
+  rewrite Hb in Hb'. injection Hb' as <-.
+  apply compatible_spec. split; [exact Da|]. split; [exact Dc|]. exists ma, mc. split; [exact Ha|]. split; [exact Hc|].
+  intros k. rewrite Hext. apply Hext'.
+Qed.
+
+(* compatible never holds for nullptr or undefined units *)
+Lemma compatible_true_defined : forall fx f w a b, compatible fx f w a b = Ok true ->
+  exists a' b', a = Some a' /\ b = Some b' /\ is_defined f w (fst a') (snd a') = Ok true /\ is_defined f w (fst b') (snd b') = Ok true.
+Proof.
+  intros fx f w [a|] [b|] H; try (cbn in H; discriminate).
+  apply compatible_spec in H. destruct H as [Da [Db _]]. exists a, b. auto.
+Qed.
+
+(* ------------------------------------------------------------------ scaling factor *)
+
+Lemma scaling_factor_pow : forall fx f w a b q,
+  scaling_factor fx f w a b = Ok (FPow q) <->
+  exists a' b' l1 l2, a = Some a' /\ b = Some b' /\ compatible fx f w a b = Ok true /\
+    mult_go fx f w (fst a') (snd a') = Ok (Some l1) /\ mult_go fx f w (fst b') (snd b') = Ok (Some l2) /\
+    q = (0 + l1 * (-1 # 1)) + l2 * 1.
+Proof.
+  intros fx f w a b q. unfold scaling_factor. split.
+  - intros H. destruct (compatible fx f w a b) as [[|]| |] eqn:Hc; try discriminate.
+    destruct a as [a'|]; [|discriminate]. destruct b as [b'|]; [|discriminate].
+    destruct (mult_go fx f w (fst a') (snd a')) as [[l1|]| |] eqn:H1; try discriminate;
+      destruct (mult_go fx f w (fst b') (snd b')) as [[l2|]| |] eqn:H2; try discriminate.
+    injection H as <-. exists a', b', l1, l2. repeat split; try reflexivity; assumption.
+  - intros [a' [b' [l1 [l2 [-> [-> [Hc [H1 [H2 ->]]]]]]]]]. rewrite Hc, H1, H2. reflexivity.
+Qed.
+
+Lemma factor_antisym : forall fx f w a b q, scaling_factor fx f w a b = Ok (FPow q) ->
+  exists q', scaling_factor fx f w b a = Ok (FPow q') /\ q + q' == 0.
+Proof.
+  intros fx f w a b q H. apply scaling_factor_pow in H.
+  destruct H as [a' [b' [l1 [l2 [-> [-> [Hc [H1 [H2 ->]]]]]]]]].
+  eexists. split.
+  - apply scaling_factor_pow. exists b', a', l2, l1. repeat split; try reflexivity; try assumption.
+    apply compatible_sym. exact Hc.
+  - ring.
+Qed.
+
+Lemma factor_cocycle : forall fx f w a b c q1 q2,
+  scaling_factor fx f w a b = Ok (FPow q1) -> scaling_factor fx f w b c = Ok (FPow q2) ->
+  exists q3, scaling_factor fx f w a c = Ok (FPow q3) /\ q3 == q1 + q2.
+Proof.
+  intros fx f w a b c q1 q2 H1 H2. apply scaling_factor_pow in H1. apply scaling_factor_pow in H2.
+  destruct H1 as [a' [b' [l1 [l2 [-> [-> [Hc [Ha [Hb ->]]]]]]]]].
+  destruct H2 as [b'' [c' [l2' [l3 [Hbb [-> [Hc' [Hb' [Hcc ->]]]]]]]]].
+  injection Hbb as <-. rewrite Hb in Hb'. injection Hb' as <-.
+  eexists. split.
+  - apply scaling_factor_pow. exists a', c', l1, l3. repeat split; try reflexivity; try assumption.
+    apply (compatible_trans _ _ _ _ _ _ Hc Hc').
+  - ring.
+Qed.
+
+Lemma factor_zero_incompatible : forall fx f w a b, compatible fx f w a b = Ok false -> scaling_factor fx f w a b = Ok FZero.
+Proof. intros fx f w a b H. unfold scaling_factor. rewrite H. reflexivity. Qed.
+
+Lemma factor_zero_null : forall fx f w a b, a = None \/ b = None -> scaling_factor fx f w a b = Ok FZero.
+Proof. intros fx f w a b [->| ->]; [|destruct a]; reflexivity. Qed.
+
+Lemma factor_zero_undefined : forall fx f w a b,
+  is_defined f w (fst a) (snd a) = Ok false \/
+  (is_defined f w (fst a) (snd a) = Ok true /\ is_defined f w (fst b) (snd b) = Ok false) ->
+  scaling_factor fx f w (Some a) (Some b) = Ok FZero.
+Proof.
+  intros fx f w a b H. apply factor_zero_incompatible. unfold compatible.
+  destruct H as [H|[H1 H2]]; [rewrite H|rewrite H1, H2]; reflexivity.
+Qed.
+
+Lemma factor_zero_iff : forall fx f w a b,
+  scaling_factor fx f w a b = Ok FZero <->
+  compatible fx f w a b = Ok false \/
+  (compatible fx f w a b = Ok true /\ exists a' b' r1 r2, a = Some a' /\ b = Some b' /\
+     mult_go fx f w (fst a') (snd a') = Ok r1 /\ mult_go fx f w (fst b') (snd b') = Ok r2 /\ (r1 = None \/ r2 = None)).
+Proof.
+  intros fx f w a b. unfold scaling_factor. split.
+  - intros H. destruct (compatible fx f w a b) as [[|]| |] eqn:Hc; try discriminate; [|left; reflexivity].
+    right. split; [reflexivity|].
+    destruct a as [a'|]; [|cbn in Hc; discriminate]. destruct b as [b'|]; [|cbn in Hc; discriminate].
+    destruct (mult_go fx f w (fst a') (snd a')) as [r1| |] eqn:H1; try discriminate.
+    destruct (mult_go fx f w (fst b') (snd b')) as [r2| |] eqn:H2; try discriminate.
+    exists a', b', r1, r2. split; [reflexivity|]. split; [reflexivity|]. split; [exact H1|]. split; [exact H2|].
+    destruct r1; [|left; reflexivity]. destruct r2; [discriminate|right; reflexivity].
+  - intros [H|[Hc [a' [b' [r1 [r2 [-> [-> [H1 [H2 Hn]]]]]]]]]]; [rewrite H; reflexivity|].
+    rewrite Hc, H1, H2. destruct Hn as [->| ->]; [reflexivity|destruct r1; reflexivity].
+Qed.
+
+Lemma factor_pos_compatible : forall fx f w a b l1 l2,
+  compatible fx f w (Some a) (Some b) = Ok true ->
+  mult_go fx f w (fst a) (snd a) = Ok (Some l1) -> mult_go fx f w (fst b) (snd b) = Ok (Some l2) ->
+  exists q, scaling_factor fx f w (Some a) (Some b) = Ok (FPow q) /\ q == l2 - l1.
+Proof.
+  intros fx f w a b l1 l2 Hc H1 H2. eexists. split.
+  - apply scaling_factor_pow. exists a, b, l1, l2. repeat split; try reflexivity; assumption.
+  - ring.
+Qed.
+
+Lemma equivalent_iff : forall fx f w a b,
+  equivalent fx f w a b = Ok true <->
+  compatible fx f w a b = Ok true /\ exists q, scaling_factor fx f w a b = Ok (FPow q) /\ q == 0.
+Proof.
+  intros fx f w a b. unfold equivalent. split.
+  - intros H. destruct (scaling_factor fx f w a b) as [[|q]| |] eqn:Hs; try discriminate.
+    injection H as H. apply qzero_iff in H. split.
+    + apply scaling_factor_pow in Hs. destruct Hs as [a' [b' [l1 [l2 [_ [_ [Hc _]]]]]]]. exact Hc.
+    + exists q. split; [reflexivity|exact H].
+  - intros [_ [q [Hs Hq]]]. rewrite Hs. f_equal. apply qzero_iff. exact Hq.
+Qed.
+
+(* ------------------------------------------------------------------ the exponent map is additive in the accumulator *)
+
+Lemma sumq_cons : forall x l, sumq (x :: l) = x + sumq l.
+Proof. reflexivity. Qed.
+
+Lemma comp_get_cons : forall c r k, comp_get (c :: r) k = (if String.eqb (fst c) k then snd c else 0) + comp_get r k.
+Proof. reflexivity. Qed.
+
+Lemma get_nil : forall k, get [] k = 0.
+Proof. reflexivity. Qed.
+
+Lemma get_fold_madd : forall (comps : list (string * Q)) e m k,
+  get (fold_left (fun m c => madd (fst c) (snd c * e) m) comps m) k == get m k + comp_get comps k * e.
+Proof.
+  induction comps as [|c r IH]; intros e m k.
+  - cbn. unfold comp_get. cbn. ring.
+  - cbn [fold_left]. rewrite IH. rewrite get_madd. rewrite comp_get_cons.
+    destruct (String.eqb (fst c) k); ring.
+Qed.
+
+Lemma get_add_std : forall n e m k, get (add_std n e m) k == get m k + std_dim n k * e.
+Proof. intros n e m k. unfold add_std, std_dim. apply get_fold_madd. Qed.
+
+Definition getr (r : res umap) (k : string) : Q := match r with Ok m => get m k | _ => 0 end.
+
+Definition additive (acc : umap) (r r0 : res umap) : Prop :=
+  match r0 with
+  | Ok m0 => exists m, r = Ok m /\ forall k, get m k == get acc k + get m0 k
+  | OutOfFuel => r = OutOfFuel
+  | Crash => r = Crash
+  end.
+
+Definition additive_step {A} (step : A -> umap -> res umap) : Prop :=
+  forall c acc, additive acc (step c acc) (step c []).
+
+Lemma additive_ok : forall acc m m0, (forall k, get m k == get acc k + get m0 k) -> additive acc (Ok m) (Ok m0).
+Proof. intros acc m m0 H. exists m. split; [reflexivity|exact H]. Qed.
+
+Lemma fold_res_additive : forall {A} (step : A -> umap -> res umap) l,
+  (forall c acc, In c l -> additive acc (step c acc) (step c [])) ->
+  forall acc, additive acc (fold_res step l acc) (fold_res step l []).
+Proof.
+  intros A step l. induction l as [|a r IH]; intros Hs acc.
+  - cbn [fold_res additive]. exists acc. split; [reflexivity|]. intros k. rewrite get_nil. ring.
+  - assert (Hr : forall c acc, In c r -> additive acc (step c acc) (step c [])) by (intros c x Hin; apply Hs; right; exact Hin).
+    specialize (IH Hr). cbn [fold_res].
+    pose proof (Hs a acc (or_introl eq_refl)) as Ha. unfold additive in Ha.
+    destruct (step a []) as [s0| |] eqn:H0; [|rewrite Ha; reflexivity|rewrite Ha; reflexivity].
+    destruct Ha as [m1 [Hm1 Hg1]]. rewrite Hm1.
+    pose proof (IH m1) as I1. pose proof (IH s0) as I0. unfold additive in *.
+    destruct (fold_res step r []) as [r0| |]; [|rewrite I1, I0; reflexivity|rewrite I1, I0; reflexivity].
+    destruct I1 as [x [Hx Hgx]]. destruct I0 as [y [Hy Hgy]]. rewrite Hx, Hy.
+    exists x. split; [reflexivity|]. intros k. rewrite Hgx, Hgy, Hg1. ring.
+Qed.
+
+Lemma umap_go_additive : forall fx f w mi name e acc,
+  additive acc (umap_go fx f w mi name e acc) (umap_go fx f w mi name e []).
+Proof.
+  intros fx. induction f as [|f' IH]; intros w mi name e acc; [reflexivity|].
+  rewrite !umap_go_S.
+  destruct (is_base (S f') w mi name) as [[|]| |]; try reflexivity.
+  - apply additive_ok. intros k. rewrite !get_madd, get_nil. destruct (String.eqb name k); ring.
+  - destruct (lookup w mi name) as [[l|mj r]|]; [| |reflexivity].
+    + destruct (Nat.eqb (length l) 0 && is_std_name name).
+      * apply additive_ok. intros k. rewrite !get_add_std, get_nil. ring.
+      * apply fold_res_additive. intros c a _.
+        destruct (is_std_name (uc_ref c)).
+        -- apply additive_ok. intros k. rewrite !get_add_std, get_nil. ring.
+        -- destruct (lookup w mi (uc_ref c)); [apply IH|reflexivity].
+    + destruct (is_std_name name).
+      * apply additive_ok. intros k. rewrite !get_add_std, get_nil. ring.
+      * destruct (lookup w mj r); [apply IH|reflexivity].
+Qed.
+
+(* a fold of additive steps from the empty map is the sum of the contributions of the elements *)
+Lemma fold_res_sum : forall {A} (step : A -> umap -> res umap) l m,
+  (forall c acc, In c l -> additive acc (step c acc) (step c [])) ->
+  fold_res step l [] = Ok m ->
+  (forall c, In c l -> exists mc, step c [] = Ok mc) /\
+  forall k, get m k == sumq (map (fun c => getr (step c []) k) l).
+Proof.
+  intros A step l. induction l as [|a r IH]; intros m Hs H.
+  - cbn in H. injection H as <-. split; [intros c []|]. intros k. reflexivity.
+  - assert (Hr : forall c acc, In c r -> additive acc (step c acc) (step c [])) by (intros c x Hin; apply Hs; right; exact Hin).
+    cbn [fold_res] in H. destruct (step a []) as [s0| |] eqn:H0; try discriminate.
+    pose proof (fold_res_additive step r Hr s0) as Ad. unfold additive in Ad. rewrite H in Ad.
+    destruct (fold_res step r []) as [r0| |] eqn:Hr0; try discriminate.
+    destruct Ad as [x [Hx Hg]]. injection Hx as <-.
+    destruct (IH r0 Hr eq_refl) as [Hall Hsum]. split.
+    + intros c [<-|Hin]; [exists s0; exact H0|apply Hall; exact Hin].
+    + intros k. cbn [map]. rewrite sumq_cons, Hg, Hsum, H0. reflexivity.
+Qed.
+
+Lemma fold_res_sum_ok : forall {A} (step : A -> umap -> res umap) l,
+  (forall c acc, In c l -> additive acc (step c acc) (step c [])) ->
+  (forall c, In c l -> exists mc, step c [] = Ok mc) -> exists m, fold_res step l [] = Ok m.
+Proof.
+  intros A step l. induction l as [|a r IH]; intros Hs Hall.
+  - exists []. reflexivity.
+  - assert (Hr : forall c acc, In c r -> additive acc (step c acc) (step c [])) by (intros c x Hin; apply Hs; right; exact Hin).
+    destruct (Hall a (or_introl eq_refl)) as [s0 H0]. cbn [fold_res]. rewrite H0.
+    destruct (IH Hr (fun c Hin => Hall c (or_intror Hin))) as [r0 Hr0].
+    pose proof (fold_res_additive step r Hr s0) as Ad. unfold additive in Ad. rewrite Hr0 in Ad.
+    destruct Ad as [x [Hx _]]. exists x. exact Hx.
+Qed.
+
+(* ------------------------------------------------------------------ order of the unit children *)
+
+(* equal as results: both fail, or both succeed with extensionally equal maps *)
+Definition req (r r' : res umap) : Prop :=
+  match r, r' with
+  | Ok m, Ok m' => forall k, get m k == get m' k
+  | Ok _, _ | _, Ok _ => False
+  | _, _ => True
+  end.
+
+Lemma sumq_perm : forall {A} (g : A -> Q) l l', Permutation l l' -> sumq (map g l) == sumq (map g l').
+Proof.
+  intros A g l l' P. induction P as [|x l l' P IH|x y l|l l' l'' P1 IH1 P2 IH2]; cbn [map]; rewrite ?sumq_cons.
+  - reflexivity.
+  - rewrite IH. reflexivity.
+  - ring.
+  - rewrite IH1. exact IH2.
+Qed.
+
+Lemma sumq_ext : forall {A} (g g' : A -> Q) l, (forall c, In c l -> g c == g' c) -> sumq (map g l) == sumq (map g' l).
+Proof.
+  intros A g g' l. induction l as [|a r IH]; intros H; cbn [map]; rewrite ?sumq_cons; [reflexivity|].
+  rewrite (H a (or_introl eq_refl)), IH; [reflexivity|]. intros c Hin. apply H. right. exact Hin.
+Qed.
+
+Lemma fold_res_perm_req : forall {A} (step step' : A -> umap -> res umap) l l',
+  additive_step step -> additive_step step' ->
+  (forall c, In c l -> req (step c []) (step' c [])) -> Permutation l l' ->
+  req (fold_res step l []) (fold_res step' l' []).
+Proof.
+  intros A step step' l l' As As' Hreq P.
+  assert (Hreq' : forall c, In c l' -> req (step c []) (step' c [])).
+  { intros c Hin. apply Hreq. apply (Permutation_in c (Permutation_sym P) Hin). }
+  destruct (fold_res step l []) as [m| |] eqn:H1.
+  - destruct (fold_res_sum step l m (fun c acc _ => As c acc) H1) as [Hall Hsum].
+    assert (Hall' : forall c, In c l' -> exists mc, step' c [] = Ok mc).
+    { intros c Hin. specialize (Hreq' c Hin). destruct (Hall c (Permutation_in c (Permutation_sym P) Hin)) as [mc Hmc].
+      rewrite Hmc in Hreq'. unfold req in Hreq'. destruct (step' c []) as [mc'| |]; [exists mc'; reflexivity|contradiction|contradiction]. }
+    destruct (fold_res_sum_ok step' l' (fun c acc _ => As' c acc) Hall') as [m' H2]. rewrite H2.
+    destruct (fold_res_sum step' l' m' (fun c acc _ => As' c acc) H2) as [_ Hsum'].
+    unfold req. intros k. rewrite Hsum, Hsum'. rewrite (sumq_perm _ l l' P). apply sumq_ext.
+    intros c Hin. specialize (Hreq' c Hin). destruct (Hall' c Hin) as [mc' Hmc'].
+    destruct (Hall c (Permutation_in c (Permutation_sym P) Hin)) as [mc Hmc].
+    rewrite Hmc, Hmc' in *. cbn. apply Hreq'.
+  - destruct (fold_res step' l' []) as [m'| |] eqn:H2; [|exact I|exact I]. exfalso.
+    destruct (fold_res_sum step' l' m' (fun c acc _ => As' c acc) H2) as [Hall' _].
+    assert (Hall : forall c, In c l -> exists mc, step c [] = Ok mc).
+    { intros c Hin. specialize (Hreq c Hin). destruct (Hall' c (Permutation_in c P Hin)) as [mc' Hmc'].
+      rewrite Hmc' in Hreq. unfold req in Hreq. destruct (step c []) as [mc| |]; [exists mc; reflexivity|contradiction|contradiction]. }
+    destruct (fold_res_sum_ok step l (fun c acc _ => As c acc) Hall) as [m H]. rewrite H in H1. discriminate.
+  - destruct (fold_res step' l' []) as [m'| |] eqn:H2; [|exact I|exact I]. exfalso.
+    destruct (fold_res_sum step' l' m' (fun c acc _ => As' c acc) H2) as [Hall' _].
+    assert (Hall : forall c, In c l -> exists mc, step c [] = Ok mc).
+    { intros c Hin. specialize (Hreq c Hin). destruct (Hall' c (Permutation_in c P Hin)) as [mc' Hmc'].
+      rewrite Hmc' in Hreq. unfold req in Hreq. destruct (step c []) as [mc| |]; [exists mc; reflexivity|contradiction|contradiction]. }
+    destruct (fold_res_sum_ok step l (fun c acc _ => As c acc) Hall) as [m H]. rewrite H in H1. discriminate.
+Qed.
+
+(* two worlds that differ only in the order of the unit children of their units *)
+Definition perm_def (d d' : option udef) : Prop :=
+  match d, d' with
+  | Some (Defs l), Some (Defs l') => Permutation l l'
+  | Some (Import a b), Some (Import a' b') => a = a' /\ b = b'
+  | None, None => True
+  | _, _ => False
+  end.
+Definition perm_world (w w' : world) : Prop :=
+  length w = length w' /\ forall mi n, perm_def (lookup w mi n) (lookup w' mi n).
+
+Lemma perm_def_none : forall d d', perm_def d d' -> (d = None <-> d' = None).
+Proof.
+  intros [[l|a b]|] [[l'|a' b']|] H; cbn in H; try contradiction; split; intros E; try discriminate; reflexivity.
+Qed.
+
+Lemma is_base_h_perm : forall w w', perm_world w w' -> forall f h mi n, is_base_h f w h mi n = is_base_h f w' h mi n.
+Proof.
+  intros w w' [Hlen Hp]. induction f as [|f' IH]; intros h mi n; [reflexivity|].
+  rewrite !is_base_h_S. pose proof (Hp mi n) as Hd. unfold perm_def in Hd.
+  destruct (lookup w mi n) as [[l|a b]|]; destruct (lookup w' mi n) as [[l'|a' b']|]; try contradiction; try reflexivity.
+  - rewrite (Permutation_length Hd). reflexivity.
+  - destruct Hd as [<- <-]. rewrite <- Hlen.
+    destruct (Nat.ltb a (length w)); [|reflexivity]. cbv zeta.
+    assert (Hc : import_cycle w h (new_epoch h mi a) = import_cycle w' h (new_epoch h mi a)).
+    { unfold import_cycle. rewrite Hlen. reflexivity. }
+    rewrite <- Hc. destruct (import_cycle w h (new_epoch h mi a)); [reflexivity|].
+    pose proof (Hp a b) as Hd2. pose proof (perm_def_none _ _ Hd2) as Hn.
+    destruct (lookup w a b) as [d|]; destruct (lookup w' a b) as [d'|]; try reflexivity.
+    + apply IH.
+    + destruct Hn as [_ Hn]. specialize (Hn eq_refl). discriminate.
+    + destruct Hn as [Hn _]. specialize (Hn eq_refl). discriminate.
+Qed.
+
+Lemma req_ok_refl : forall m, req (Ok m) (Ok m).
+Proof. intros m k. reflexivity. Qed.
+
+Lemma umap_step_additive : forall fx f' w mi e,
+  additive_step (fun (c : unit_child) a =>
+                if is_std_name (uc_ref c) then Ok (add_std (uc_ref c) (uc_exp c * e) a)
+                else match lookup w mi (uc_ref c) with
+                     | None => Crash
+                     | Some _ => umap_go fx f' w mi (uc_ref c) (uc_exp c * e) a
+                     end).
+Proof.
+  intros fx f' w mi e c acc. cbv beta.
+  destruct (is_std_name (uc_ref c)).
+  - apply additive_ok. intros k. rewrite !get_add_std, get_nil. ring.
+  - destruct (lookup w mi (uc_ref c)); [apply umap_go_additive|reflexivity].
+Qed.
+
+Lemma umap_go_perm : forall fx w w', perm_world w w' -> forall f mi n e,
+  req (umap_go fx f w mi n e []) (umap_go fx f w' mi n e []).
+Proof.
+  intros fx w w' PW. pose proof PW as [Hlen Hp]. induction f as [|f' IH]; intros mi n e; [exact I|].
+  rewrite !umap_go_S. unfold is_base. rewrite <- (is_base_h_perm w w' PW).
+  destruct (is_base_h (S f') w [] mi n) as [[|]| |]; try exact I; [apply req_ok_refl|].
+  pose proof (Hp mi n) as Hd. unfold perm_def in Hd.
+  destruct (lookup w mi n) as [[l|a b]|]; destruct (lookup w' mi n) as [[l'|a' b']|]; try contradiction; try exact I.
+  - rewrite <- (Permutation_length Hd).
+    destruct (Nat.eqb (length l) 0 && is_std_name n); [apply req_ok_refl|].
+    apply fold_res_perm_req; [apply umap_step_additive|apply umap_step_additive| |exact Hd].
+    intros c _. destruct (is_std_name (uc_ref c)); [apply req_ok_refl|].
+    pose proof (Hp mi (uc_ref c)) as Hd2. pose proof (perm_def_none _ _ Hd2) as Hn.
+    destruct (lookup w mi (uc_ref c)) as [d|]; destruct (lookup w' mi (uc_ref c)) as [d'|]; try exact I.
+    + apply IH.
+    + destruct Hn as [_ Hn]. specialize (Hn eq_refl). discriminate.
+    + destruct Hn as [Hn _]. specialize (Hn eq_refl). discriminate.
+  - destruct Hd as [<- <-]. destruct (is_std_name n); [apply req_ok_refl|].
+    pose proof (Hp a b) as Hd2. pose proof (perm_def_none _ _ Hd2) as Hn.
+    destruct (lookup w a b) as [d|]; destruct (lookup w' a b) as [d'|]; try exact I.
+    + apply IH.
+    + destruct Hn as [_ Hn]. specialize (Hn eq_refl). discriminate.
+    + destruct Hn as [Hn _]. specialize (Hn eq_refl). discriminate.
+Qed.
+
+Lemma define_units_map_perm : forall fx w w' f u m, perm_world w w' ->
+  define_units_map fx f w u = Ok m ->
+  exists m', define_units_map fx f w' u = Ok m' /\ forall k, get m k == get m' k.
+Proof.
+  intros fx w w' f u m PW H. unfold define_units_map in *.
+  pose proof (umap_go_perm fx w w' PW f (fst u) (snd u) 1) as R.
+  destruct (umap_go fx f w (fst u) (snd u) 1 []) as [m0| |] eqn:H0; try discriminate. injection H as <-.
+  unfold req in R. destruct (umap_go fx f w' (fst u) (snd u) 1 []) as [m0'| |] eqn:H0'; try contradiction.
+  exists (clean_map m0'). split; [reflexivity|]. intros k.
+  rewrite !get_clean_map.
+  - destruct (String.eqb k "dimensionless"); [reflexivity|apply R].
+  - apply (umap_go_wf _ _ _ _ _ _ _ _ wfmap_nil H0').
+  - apply (umap_go_wf _ _ _ _ _ _ _ _ wfmap_nil H0).
+Qed.
+
+(* set_units gives such a world *)
+Lemma assoc_set_assoc : forall {A} k (v : A) l k',
+  assoc k' (set_assoc k v l) =
+  match assoc k l with
+  | Some _ => if String.eqb k' k then Some v else assoc k' l
+  | None => assoc k' l
+  end.
+Proof.
+  intros A k v l k'. induction l as [|[key x] r IH]; cbn; [reflexivity|].
+  destruct (String.eqb_spec k key) as [->|Hne]; cbn.
+  - destruct (String.eqb k' key); reflexivity.
+  - rewrite IH. destruct (assoc k r).
+    + destruct (String.eqb_spec k' key) as [->|Hne'].
+      * destruct (String.eqb_spec key k) as [->|_]; [contradiction Hne; reflexivity|reflexivity].
+      * reflexivity.
+    + reflexivity.
+Qed.
+
+Lemma length_set_units : forall w mi n d, length (set_units w mi n d) = length w.
+Proof.
+  induction w as [|e r IH]; intros mi n d; [reflexivity|]. destruct mi; cbn; [reflexivity|]. rewrite IH. reflexivity.
+Qed.
+
+Lemma lookup_set_units : forall w mi0 n0 d mi n,
+  lookup (set_units w mi0 n0 d) mi n =
+  match lookup w mi0 n0 with
+  | Some _ => if Nat.eqb mi mi0 && String.eqb n n0 then Some d else lookup w mi n
+  | None => lookup w mi n
+  end.
+Proof.
+  unfold lookup. induction w as [|e r IH]; intros mi0 n0 d mi n.
+  - destruct mi0; destruct mi; reflexivity.
+  - destruct mi0 as [|mi0']; destruct mi as [|mi']; cbn [set_units nth_error Nat.eqb andb].
+    + rewrite assoc_set_assoc. destruct (assoc n0 e); reflexivity.
+    + destruct (assoc n0 e); reflexivity.
+    + destruct (match nth_error r mi0' with Some e0 => assoc n0 e0 | None => None end); reflexivity.
+    + apply IH.
+Qed.
+
+Lemma perm_world_set_units : forall w mi0 n0 l l',
+  lookup w mi0 n0 = Some (Defs l) -> Permutation l l' -> perm_world w (set_units w mi0 n0 (Defs l')).
+Proof.
+  intros w mi0 n0 l l' Hl P. split; [symmetry; apply length_set_units|].
+  intros mi n. rewrite lookup_set_units, Hl.
+  destruct (Nat.eqb_spec mi mi0) as [->|Hne]; cbn [andb].
+  - destruct (String.eqb_spec n n0) as [->|Hne'].
+    + rewrite Hl. exact P.
+    + destruct (lookup w mi0 n) as [[x|a b]|]; cbn; auto.
+  - destruct (lookup w mi n) as [[x|a b]|]; cbn; auto.
+Qed.
+
+(** The exponent map of every units is independent of the order of the unit children of any units. *)
+Lemma map_perm_invariant : forall fx f w mi0 n0 l l' u m,
+  lookup w mi0 n0 = Some (Defs l) -> Permutation l l' ->
+  define_units_map fx f w u = Ok m ->
+  exists m', define_units_map fx f (set_units w mi0 n0 (Defs l')) u = Ok m' /\ forall k, get m k == get m' k.
+Proof.
+  intros fx f w mi0 n0 l l' u m Hl P H.
+  apply (define_units_map_perm fx w _ f u m (perm_world_set_units w mi0 n0 l l' Hl P) H).
+Qed.
+
+(** ... and so is compatible, as long as the library still calls both units defined (isDefined() itself depends on the order). *)
+Lemma compatible_perm_partial : forall fx f w w' a b, perm_world w w' ->
+  compatible fx f w (Some a) (Some b) = Ok true ->
+  is_defined f w' (fst a) (snd a) = Ok true -> is_defined f w' (fst b) (snd b) = Ok true ->
+  compatible fx f w' (Some a) (Some b) = Ok true.
+Proof.
+  intros fx f w w' a b PW H Da Db. apply compatible_spec in H.
+  destruct H as [_ [_ [ma [mb [Ha [Hb Hext]]]]]].
+  destruct (define_units_map_perm fx w w' f a ma PW Ha) as [ma' [Ha' Ea]].
+  destruct (define_units_map_perm fx w w' f b mb PW Hb) as [mb' [Hb' Eb]].
+  apply compatible_spec. split; [exact Da|]. split; [exact Db|]. exists ma', mb'. split; [exact Ha'|]. split; [exact Hb'|].
+  intros k. rewrite <- Ea, <- Eb. apply Hext.
+Qed.
+
+(* ------------------------------------------------------------------ the exponent map is the dimension *)
+
+Definition import_free (w : world) : Prop := forall mi n a b, lookup w mi n <> Some (Import a b).
+
+Lemma dim_S : forall f' w mi name k, dim (S f') w mi name k =
+    match is_base (S f') w mi name with
+    | Ok true => if String.eqb name k then 1 else 0
+    | _ =>
+      match lookup w mi name with
+      | None => 0
+      | Some (Import mj r) => if is_std_name name then std_dim name k else dim f' w mj r k
+      | Some (Defs l) =>
+          if Nat.eqb (length l) 0 && is_std_name name then std_dim name k
+          else sumq (map (fun c => uc_exp c * (if is_std_name (uc_ref c) then std_dim (uc_ref c) k
+                                               else dim f' w mi (uc_ref c) k)) l)
+      end
+    end.
+Proof. reflexivity. Qed.
+
+Lemma sumq_scale : forall {A} (g : A -> Q) e l, sumq (map (fun c => e * g c) l) == e * sumq (map g l).
+Proof.
+  intros A g e l. induction l as [|a r IH]; cbn [map]; rewrite ?sumq_cons.
+  - unfold sumq. cbn. ring.
+  - rewrite IH. ring.
+Qed.
+
+Lemma umap_go_dim : forall fx w, fx_import fx = true \/ import_free w ->
+  forall f mi n e, defined_sem f w mi n = Ok true ->
+  exists m, umap_go fx f w mi n e [] = Ok m /\ forall k, get m k == e * dim f w mi n k.
+Proof.
+  intros fx w Hfx. induction f as [|f' IH]; intros mi n e Hd; [discriminate|].
+  destruct (defined_umap_ok fx (S f') w mi n e [] Hd) as [m Hm]. exists m. split; [exact Hm|].
+  intros k. rewrite umap_go_S in Hm. rewrite dim_S.
+  destruct (defined_is_base_ok (S f') w [] mi n Hd) as [b Hb]. unfold is_base in *. rewrite Hb in *.
+  destruct b.
+  - injection Hm as <-. change (get (madd n e []) k == e * (if String.eqb n k then 1 else 0)).
+    rewrite get_madd, get_nil. destruct (String.eqb n k); ring.
+  - pose proof Hd as Hd0. rewrite defined_sem_S in Hd.
+    destruct (lookup w mi n) as [[l|mj r]|] eqn:Hl; [| |discriminate].
+    + destruct (Nat.eqb (length l) 0 && is_std_name n).
+      * injection Hm as <-. rewrite get_add_std, get_nil. ring.
+      * destruct (fold_res_sum _ l m (fun c acc _ => umap_step_additive fx f' w mi e c acc) Hm) as [_ Hsum].
+        rewrite Hsum. rewrite <- sumq_scale. apply sumq_ext. intros c Hin. cbv beta.
+        destruct (is_std_name (uc_ref c)) eqn:Hstd.
+        -- cbn [getr]. rewrite get_add_std, get_nil. ring.
+        -- destruct (defined_children f' w mi n l c Hd0 Hl Hin Hstd) as [Hne Hdc].
+           destruct (lookup w mi (uc_ref c)); [|contradiction Hne; reflexivity].
+           destruct (IH mi (uc_ref c) (uc_exp c * e) Hdc) as [mc [Hmc Hgc]]. rewrite Hmc. cbn [getr]. rewrite Hgc. ring.
+    + destruct Hfx as [Hfx|Hfree]; [|exfalso; apply (Hfree mi n mj r Hl)].
+      destruct (is_std_name n).
+      * injection Hm as <-. rewrite get_add_std, get_nil. ring.
+      * destruct (lookup w mj r) as [d|] eqn:Hlt; [|discriminate].
+        rewrite Hfx in Hm. destruct (IH mj r e Hd) as [mc [Hmc Hgc]]. rewrite Hmc in Hm. injection Hm as <-. apply Hgc.
+Qed.
+
+(** With the import exponent passed on (or without imports), the cleaned map of a defined units is its dimension. *)
+Lemma map_is_dimension : forall fx f w u, fx_import fx = true \/ import_free w ->
+  is_defined f w (fst u) (snd u) = Ok true ->
+  exists m, define_units_map fx f w u = Ok m /\
+            forall k, k <> "dimensionless" -> get m k == dim f w (fst u) (snd u) k.
+Proof.
+  intros fx f w u Hfx Hd. apply is_defined_sound in Hd.
+  destruct (umap_go_dim fx w Hfx f (fst u) (snd u) 1 Hd) as [m0 [Hm0 Hg]].
+  unfold define_units_map. rewrite Hm0. exists (clean_map m0). split; [reflexivity|].
+  intros k Hk. rewrite get_clean_map by apply (umap_go_wf _ _ _ _ _ _ _ _ wfmap_nil Hm0).
+  destruct (String.eqb_spec k "dimensionless") as [->|_]; [contradiction Hk; reflexivity|].
+  rewrite Hg. ring.
+Qed.
+
+Lemma compatible_iff_same_exponents : forall fx f w a b, fx_import fx = true \/ import_free w ->
+  is_defined f w (fst a) (snd a) = Ok true -> is_defined f w (fst b) (snd b) = Ok true ->
+  (compatible fx f w (Some a) (Some b) = Ok true <->
+   forall k, k <> "dimensionless" -> dim f w (fst a) (snd a) k == dim f w (fst b) (snd b) k).
+Proof.
+  intros fx f w a b Hfx Da Db.
+  destruct (map_is_dimension fx f w a Hfx Da) as [ma [Ha Ga]].
+  destruct (map_is_dimension fx f w b Hfx Db) as [mb [Hb Gb]].
+  rewrite (compatible_iff_same_maps fx f w a b ma mb Da Db Ha Hb). split.
+  - intros H k Hk. rewrite <- Ga, <- Gb by exact Hk. apply H.
+  - intros H k. destruct (String.eqb_spec k "dimensionless") as [->|Hk].
+    + unfold define_units_map in Ha, Hb.
+      destruct (umap_go fx f w (fst a) (snd a) 1 []) as [ma0| |] eqn:Ea; try discriminate.
+      destruct (umap_go fx f w (fst b) (snd b) 1 []) as [mb0| |] eqn:Eb; try discriminate.
+      injection Ha as <-. injection Hb as <-.
+      rewrite !get_clean_map; [reflexivity| |].
+      * apply (umap_go_wf _ _ _ _ _ _ _ _ wfmap_nil Eb).
+      * apply (umap_go_wf _ _ _ _ _ _ _ _ wfmap_nil Ea).
+    + rewrite Ga, Gb by exact Hk. apply H. exact Hk.
+Qed.
+
+(* ------------------------------------------------------------------ witnesses on the code as it is *)
+
+Definition mk (r p : string) (e m : Q) : unit_child := {| uc_ref := r; uc_prefix := p; uc_exp := e; uc_mult := m |}.
+
+(* row 23: lib: I = metre; main: Ii imports I, I2 = Ii^2, m2 = metre^2 *)
+Definition w_import : world :=
+  [ [("Ii", Import 1 "I"); ("I2", Defs [mk "Ii" "" (2 # 1) 0]); ("m2", Defs [mk "metre" "" (2 # 1) 0])];
+    [("I", Defs [mk "metre" "" 1 0])] ].
+
+Lemma compatible_iff_same_exponents_refuted :
+  exists f w a b,
+    is_defined f w (fst a) (snd a) = Ok true /\ is_defined f w (fst b) (snd b) = Ok true /\
+    (forall k, k <> "dimensionless" -> dim f w (fst a) (snd a) k == dim f w (fst b) (snd b) k) /\
+    compatible unfixed f w (Some a) (Some b) = Ok false.
+Proof.
+  exists 5%nat, w_import, (0%nat, "I2"), (0%nat, "m2").
+  assert (Da : is_defined 5 w_import 0 "I2" = Ok true) by (vm_compute; reflexivity).
+  assert (Db : is_defined 5 w_import 0 "m2" = Ok true) by (vm_compute; reflexivity).
+  split; [exact Da|]. split; [exact Db|]. split; [|vm_compute; reflexivity].
+  apply (compatible_iff_same_exponents all_fixed 5 w_import (0%nat, "I2") (0%nat, "m2") (or_introl eq_refl) Da Db).
+  vm_compute. reflexivity.
+Qed.
+
+Lemma map_indirection_refuted :
+  exists f w u m, is_defined f w (fst u) (snd u) = Ok true /\ define_units_map unfixed f w u = Ok m /\
+                  ~ get m "metre" == dim f w (fst u) (snd u) "metre".
+Proof.
+  exists 5%nat, w_import, (0%nat, "I2"). eexists. split; [vm_compute; reflexivity|]. split; [vm_compute; reflexivity|].
+  vm_compute. discriminate.
+Qed.
+
+(* isDefined depends on the order of the unit children (import history never popped) *)
+Definition w_order (swap : bool) : world :=
+  [ [("A", Import 1 "I3"); ("B", Import 1 "X");
+     ("u", Defs (if swap then [mk "B" "" 1 0; mk "A" "" 1 0] else [mk "A" "" 1 0; mk "B" "" 1 0]))];
+    [("I3", Import 2 "B1"); ("X", Defs [mk "metre" "" 1 0])];
+    [("B1", Defs [])] ].
+
+Lemma compatible_perm_refuted :
+  exists fx f w mi n l l' u,
+    lookup w mi n = Some (Defs l) /\ Permutation l l' /\
+    compatible fx f (set_units w mi n (Defs l')) (Some u) (Some u) = Ok true /\
+    compatible fx f w (Some u) (Some u) = Ok false /\
+    defined_sem f w (fst u) (snd u) = Ok true.
+Proof.
+  exists unfixed, 6%nat, (w_order false), 0%nat, "u", [mk "A" "" 1 0; mk "B" "" 1 0], [mk "B" "" 1 0; mk "A" "" 1 0], (0%nat, "u").
+  split; [reflexivity|]. split; [apply perm_swap|]. split; [vm_compute; reflexivity|]. split; vm_compute; reflexivity.
+Qed.
+
+Lemma is_defined_complete_refuted :
+  exists f w mi n, defined_sem f w mi n = Ok true /\ is_defined f w mi n = Ok false.
+Proof. exists 6%nat, (w_order false), 0%nat, "u". split; vm_compute; reflexivity. Qed.
+
+(* ------------------------------------------------------------------ the scale is the SI scale under the property's condition *)
+
+Lemma mult_go_S : forall fx f' w mi name, mult_go fx (S f') w mi name =
+    match lookup w mi name with
+    | None => Crash
+    | Some (Import mj r) =>
+        match is_resolved (S f') w mi name with
+        | Ok true =>
+            match lookup w mj r with
+            | None => Crash
+            | Some _ => match mult_go fx f' w mj r with
+                        | Ok (Some l) => Ok (Some (0 + l * 1))
+                        | Ok None => Ok (Some 0)
+                        | x => x
+                        end
+            end
+        | Ok false => Ok None
+        | OutOfFuel => OutOfFuel
+        | Crash => Crash
+        end
+    | Some (Defs l) =>
+        if Nat.eqb (length l) 0
+        then Ok (Some (if fx_std fx && is_std_name name then std_mult name else 0))
+        else
+          fold_opt (fun c s =>
+            match convert_prefix (uc_prefix c) with
+            | None => Ok None
+            | Some p =>
+                if is_std_name (uc_ref c)
+                then Ok (Some (s + (uc_mult c + std_mult (uc_ref c) * uc_exp c + inject_Z p)))
+                else match lookup w mi (uc_ref c) with
+                     | None => Ok None
+                     | Some _ => match mult_go fx f' w mi (uc_ref c) with
+                                 | Ok (Some b) => Ok (Some (s + (uc_mult c + (0 + b * 1) * uc_exp c + inject_Z p)))
+                                 | x => x
+                                 end
+                     end
+            end) l 0
+    end.
+Proof. reflexivity. Qed.
+
+Lemma si_log_S : forall inside f' w mi name, si_log inside (S f') w mi name =
+    match lookup w mi name with
+    | None => 0
+    | Some (Import mj r) => si_log inside f' w mj r
+    | Some (Defs l) =>
+        if Nat.eqb (length l) 0 then (if is_std_name name then std_mult name else 0)
+        else sumq (map (fun c =>
+               let p := prefix_or_zero (uc_prefix c) in
+               let r := if is_std_name (uc_ref c) then std_mult (uc_ref c) else si_log inside f' w mi (uc_ref c) in
+               if inside then uc_exp c * (uc_mult c + p + r) else uc_mult c + uc_exp c * (p + r)) l)
+    end.
+Proof. reflexivity. Qed.
+
+Lemma si_term_eq : forall (inside : bool) (ex m p r : Q),
+  ex == 1 \/ (p == 0 /\ m == 0) ->
+  m + r * ex + p == (if inside then ex * (m + p + r) else m + ex * (p + r)).
+Proof.
+  intros inside ex m p r [H|[Hp Hm]]; destruct inside.
+  - rewrite H. ring.
+  - rewrite H. ring.
+  - rewrite Hp, Hm. ring.
+  - rewrite Hp, Hm. ring.
+Qed.
+
+Lemma mult_go_si : forall fx w (inside : bool), fx_std fx = true \/ no_bare_std_scaled w ->
+  forall f mi n l, si_cond f w mi n = true -> imports_scale_ok fx f w mi n = true ->
+  mult_go fx f w mi n = Ok (Some l) -> l == si_log inside f w mi n.
+Proof.
+  intros fx w inside Hfx. induction f as [|f' IH]; intros mi n l Hc Hi Hm; [discriminate|].
+  rewrite mult_go_S in Hm. rewrite si_log_S. cbn [si_cond imports_scale_ok] in Hc, Hi.
+  destruct (lookup w mi n) as [[ch|mj r]|] eqn:Hl; [| |discriminate].
+  - destruct (Nat.eqb (length ch) 0) eqn:Hlen.
+    + injection Hm as <-. destruct (is_std_name n) eqn:Hstd; [|rewrite andb_false_r; reflexivity].
+      rewrite andb_true_r. destruct (fx_std fx) eqn:Hs; [reflexivity|].
+      destruct Hfx as [Hfx|Hnb]; [discriminate|].
+      destruct ch; [|discriminate]. symmetry. apply (Hnb mi n Hl Hstd).
+    + clear Hl Hlen.
+      assert (G : forall s t, fold_opt (fun c s =>
+            match convert_prefix (uc_prefix c) with
+            | None => Ok None
+            | Some p =>
+                if is_std_name (uc_ref c)
+                then Ok (Some (s + (uc_mult c + std_mult (uc_ref c) * uc_exp c + inject_Z p)))
+                else match lookup w mi (uc_ref c) with
+                     | None => Ok None
+                     | Some _ => match mult_go fx f' w mi (uc_ref c) with
+                                 | Ok (Some b) => Ok (Some (s + (uc_mult c + (0 + b * 1) * uc_exp c + inject_Z p)))
+                                 | x => x
+                                 end
+                     end
+            end) ch s = Ok (Some t) ->
+          t == s + sumq (map (fun c =>
+               if inside
+               then uc_exp c * (uc_mult c + prefix_or_zero (uc_prefix c) +
+                                (if is_std_name (uc_ref c) then std_mult (uc_ref c) else si_log inside f' w mi (uc_ref c)))
+               else uc_mult c + uc_exp c * (prefix_or_zero (uc_prefix c) +
+                                (if is_std_name (uc_ref c) then std_mult (uc_ref c) else si_log inside f' w mi (uc_ref c)))) ch)).
+      { clear Hm. induction ch as [|c rest IHc]; intros s t Hf.
+        - cbn in Hf. injection Hf as <-. unfold sumq. cbn. ring.
+        - cbn [forallb] in Hc, Hi. apply andb_prop in Hc. destruct Hc as [Hc1 Hc]. apply andb_prop in Hi. destruct Hi as [Hi1 Hi].
+          apply andb_prop in Hc1. destruct Hc1 as [Hc1 Hc3]. apply andb_prop in Hc1. destruct Hc1 as [Hc1 Hc2].
+          cbn [fold_opt] in Hf. cbn [map]. rewrite sumq_cons.
+          destruct (convert_prefix (uc_prefix c)) as [p|] eqn:Hp; [|discriminate].
+          assert (Hpz : prefix_or_zero (uc_prefix c) = inject_Z p) by (unfold prefix_or_zero; rewrite Hp; reflexivity).
+          rewrite Hpz.
+          assert (Hcond : uc_exp c == 1 \/ (inject_Z p == 0 /\ uc_mult c == 0)).
+          { apply orb_prop in Hc1. destruct Hc1 as [H1|H1].
+            - left. apply Qeq_bool_iff. exact H1.
+            - right. unfold child_scale_free, prefix_or_zero in H1. rewrite Hp in H1. apply andb_prop in H1.
+              destruct H1 as [Ha Hb]. split; apply Qeq_bool_iff; assumption. }
+          destruct (is_std_name (uc_ref c)) eqn:Hstd.
+          + rewrite (IHc Hc Hi _ _ Hf). rewrite <- (si_term_eq inside _ _ _ _ Hcond). ring.
+          + cbn [orb] in Hc3, Hi1.
+            destruct (lookup w mi (uc_ref c)) as [d|]; [|discriminate].
+            destruct (mult_go fx f' w mi (uc_ref c)) as [[b|]| |] eqn:Hb; try discriminate.
+            rewrite (IHc Hc Hi _ _ Hf). rewrite <- (si_term_eq inside _ _ _ _ Hcond).
+            rewrite <- (IH mi (uc_ref c) b Hc3 Hi1 Hb). ring. }
+      rewrite (G 0 l Hm). cbv zeta. ring.
+  - destruct (is_resolved (S f') w mi n) as [[|]| |]; try discriminate.
+    destruct (lookup w mj r) as [d|]; [|discriminate].
+    destruct (mult_go fx f' w mj r) as [[b|]| |] eqn:Hb; try discriminate.
+    injection Hm as <-. rewrite <- (IH mj r b Hc Hi Hb). ring.
+Qed.
+
+Lemma factor_is_si_ratio_partial : forall fx f w (inside : bool) a b q,
+  fx_std fx = true \/ no_bare_std_scaled w ->
+  si_cond f w (fst a) (snd a) = true -> si_cond f w (fst b) (snd b) = true ->
+  imports_scale_ok fx f w (fst a) (snd a) = true -> imports_scale_ok fx f w (fst b) (snd b) = true ->
+  scaling_factor fx f w (Some a) (Some b) = Ok (FPow q) ->
+  q == si_log inside f w (fst b) (snd b) - si_log inside f w (fst a) (snd a).
+Proof.
+  intros fx f w inside a b q Hfx Ca Cb Ia Ib H. apply scaling_factor_pow in H.
+  destruct H as [a' [b' [l1 [l2 [Ea [Eb [_ [H1 [H2 ->]]]]]]]]]. injection Ea as <-. injection Eb as <-.
+  rewrite <- (mult_go_si fx w inside Hfx f _ _ l1 Ca Ia H1), <- (mult_go_si fx w inside Hfx f _ _ l2 Cb Ib H2). ring.
+Qed.
+
+(* outside the condition: mm2 = (milli metre)^2 against m2 = metre^2 *)
+Definition w_mm : world :=
+  [ [("mm2", Defs [mk "metre" "milli" (2 # 1) 0]); ("m2", Defs [mk "metre" "" (2 # 1) 0]);
+     ("mm", Defs [mk "metre" "milli" 1 0]); ("mm_sq", Defs [mk "mm" "" (2 # 1) 0])] ].
+
+Lemma factor_is_si_ratio_refuted :
+  exists fx f w a b q, si_cond f w (fst a) (snd a) = false /\
+    scaling_factor fx f w (Some a) (Some b) = Ok (FPow q) /\
+    ~ q == si_log false f w (fst b) (snd b) - si_log false f w (fst a) (snd a) /\
+    ~ q == si_log true f w (fst b) (snd b) - si_log true f w (fst a) (snd a).
+Proof.
+  exists all_fixed, 5%nat, w_mm, (0%nat, "mm2"), (0%nat, "m2"). eexists.
+  split; [vm_compute; reflexivity|]. split; [vm_compute; reflexivity|]. split; vm_compute; discriminate.
+Qed.
+
+(* inside the condition, on the code as it is: a bare "litre" against metre^3 *)
+Definition w_litre : world :=
+  [ [("m3", Defs [mk "metre" "" (3 # 1) 0]); ("L1", Defs [mk "litre" "" 1 0])]; [("litre", Defs [])] ].
+
+Lemma factor_is_si_ratio_bare_std_refuted :
+  exists f w a b q, si_cond f w (fst a) (snd a) = true /\ si_cond f w (fst b) (snd b) = true /\
+    imports_scale_ok unfixed f w (fst a) (snd a) = true /\ imports_scale_ok unfixed f w (fst b) (snd b) = true /\
+    scaling_factor unfixed f w (Some a) (Some b) = Ok (FPow q) /\
+    ~ q == si_log false f w (fst b) (snd b) - si_log false f w (fst a) (snd a).
+Proof.
+  exists 5%nat, w_litre, (1%nat, "litre"), (0%nat, "m3"). eexists.
+  repeat (split; [vm_compute; reflexivity|]). vm_compute. discriminate.
+Qed.
+
+(* ------------------------------------------------------------------ the three scale formulas agree on the fragment agree_cond *)
+
+Lemma agree_cond_S : forall f' w mi name, agree_cond (S f') w mi name =
+    (negb (is_std_name name) &&
+    match lookup w mi name with
+    | Some (Defs l) =>
+        forallb (fun c =>
+          Qeq_bool (uc_exp c) 1
+          && (match convert_prefix (uc_prefix c) with Some _ => true | None => false end)
+          && (is_std_name (uc_ref c)
+              || match lookup w mi (uc_ref c) with
+                 | Some (Defs l') => (Nat.eqb (length l') 0 || child_scale_free c) && agree_cond f' w mi (uc_ref c)
+                 | _ => false
+                 end)) l
+    | _ => false
+    end).
+Proof. reflexivity. Qed.
+
+Lemma val_go_S : forall f' w mi uname uexp logmult dir s, val_go (S f') w mi uname uexp logmult dir s =
+    match lookup w mi uname with
+    | Some d =>
+        match is_base (S f') w mi uname with
+        | Ok true => Ok (madd uname (dir * uexp) (fst s), snd s + dir * logmult)
+        | Ok false =>
+            match d with
+            | Import _ _ => Ok s
+            | Defs l =>
+                fold_res (fun c s =>
+                  if negb (is_std_name (uc_ref c))
+                  then val_go f' w mi (uc_ref c) (uc_exp c * uexp)
+                         (logmult + uc_mult c * uexp + prefix_or_zero (uc_prefix c) * uexp) dir s
+                  else match at_add_std (uc_ref c) (dir * (uc_exp c * uexp)) (fst s) with
+                       | Ok m => Ok (m, snd s + dir * (logmult + (std_mult (uc_ref c) + uc_mult c + prefix_or_zero (uc_prefix c)) * uc_exp c))
+                       | OutOfFuel => OutOfFuel
+                       | Crash => Crash
+                       end) l s
+            end
+        | OutOfFuel => OutOfFuel
+        | Crash => Crash
+        end
+    | None =>
+        if is_std_name uname
+        then match at_add_std uname (dir * uexp) (fst s) with
+             | Ok m => Ok (m, snd s + dir * (logmult + std_mult uname))
+             | OutOfFuel => OutOfFuel
+             | Crash => Crash
+             end
+        else Ok s
+    end.
+Proof. reflexivity. Qed.
+
+Lemma ana_mult_go_S : forall f' w mi name e um acc, ana_mult_go (S f') w mi name e um acc =
+    if is_std_name name then Ok (acc + (um + std_mult name))
+    else match lookup w mi name with
+         | None => Crash
+         | Some d =>
+             match is_base (S f') w mi name with
+             | Ok true => Ok (acc + um)
+             | Ok false =>
+                 match d with
+                 | Import _ _ => Ok acc
+                 | Defs l =>
+                     fold_res (fun c a =>
+                       if is_std_name (uc_ref c)
+                       then Ok (a + (um + (std_mult (uc_ref c) + uc_mult c + prefix_or_zero (uc_prefix c)) * uc_exp c * e))
+                       else ana_mult_go f' w mi (uc_ref c) (uc_exp c * e)
+                              (um + (uc_mult c + prefix_or_zero (uc_prefix c)) * e) a) l acc
+                 end
+             | OutOfFuel => OutOfFuel
+             | Crash => Crash
+             end
+         end.
+Proof. reflexivity. Qed.
+
+Definition has_base (m : umap) : Prop := forall b, In b base_units_list -> assoc b m <> None.
+
+Lemma has_base_madd : forall k d m, has_base m -> has_base (madd k d m).
+Proof.
+  intros k d m H b Hb Hn. apply assoc_none_keys in Hn. apply Hn. apply (keys_madd_in k d m b). right.
+  destruct (assoc b m) as [v|] eqn:E; [apply assoc_some_keys in E; exact E|exfalso; apply (H b Hb E)].
+Qed.
+
+Lemma at_add_std_ok : forall n d m, has_base m -> exists m', at_add_std n d m = Ok m' /\ has_base m'.
+Proof.
+  intros n d m Hm. unfold at_add_std. pose proof (std_components_over_base n) as Hb. revert m Hm Hb.
+  generalize (std_components n). intros comps. induction comps as [|c r IH]; intros m Hm Hb.
+  - exists m. split; [reflexivity|exact Hm].
+  - cbn [fold_res]. unfold at_add at 1.
+    assert (Hin : In (fst c) base_units_list) by (apply (Hb (fst c) (snd c)); left; destruct c; reflexivity).
+    destruct (assoc (fst c) m) as [v|] eqn:E; [|exfalso; apply (Hm _ Hin E)].
+    apply IH; [apply has_base_madd; exact Hm|]. intros k e Hk. apply (Hb k e). right. exact Hk.
+Qed.
+
+Lemma fold_res_sum_inv : forall {A S} (step : A -> S -> res S) (P : S -> Prop) (val : S -> Q) (term : A -> Q) l,
+  (forall c s, In c l -> P s -> exists s', step c s = Ok s' /\ P s' /\ val s' == val s + term c) ->
+  forall s, P s -> exists s', fold_res step l s = Ok s' /\ P s' /\ val s' == val s + sumq (map term l).
+Proof.
+  intros A S step P val term l. induction l as [|a r IH]; intros Hs s HP.
+  - exists s. split; [reflexivity|]. split; [exact HP|]. unfold sumq. cbn. ring.
+  - destruct (Hs a s (or_introl eq_refl) HP) as [s1 [H1 [P1 V1]]]. cbn [fold_res]. rewrite H1.
+    destruct (IH (fun c x Hin => Hs c x (or_intror Hin)) s1 P1) as [s' [H' [P' V']]].
+    exists s'. split; [exact H'|]. split; [exact P'|]. cbn [map]. rewrite sumq_cons, V', V1. ring.
+Qed.
+
+Lemma fold_opt_sum_inv : forall {A} (step : A -> Q -> res (option Q)) (term : A -> Q) l,
+  (forall c s, In c l -> exists s', step c s = Ok (Some s') /\ s' == s + term c) ->
+  forall s, exists t, fold_opt step l s = Ok (Some t) /\ t == s + sumq (map term l).
+Proof.
+  intros A step term l. induction l as [|a r IH]; intros Hs s.
+  - exists s. split; [reflexivity|]. unfold sumq. cbn. ring.
+  - destruct (Hs a s (or_introl eq_refl)) as [s1 [H1 V1]]. cbn [fold_opt]. rewrite H1.
+    destruct (IH (fun c x Hin => Hs c x (or_intror Hin)) s1) as [t [H' V']].
+    exists t. split; [exact H'|]. cbn [map]. rewrite sumq_cons, V', V1. ring.
+Qed.
+
+(* what agree_cond says about one unit child *)
+Lemma agree_child : forall f' w mi l c,
+  forallb (fun c =>
+          Qeq_bool (uc_exp c) 1
+          && (match convert_prefix (uc_prefix c) with Some _ => true | None => false end)
+          && (is_std_name (uc_ref c)
+              || match lookup w mi (uc_ref c) with
+                 | Some (Defs l') => (Nat.eqb (length l') 0 || child_scale_free c) && agree_cond f' w mi (uc_ref c)
+                 | _ => false
+                 end)) l = true -> In c l ->
+  uc_exp c == 1 /\ exists p, convert_prefix (uc_prefix c) = Some p /\ prefix_or_zero (uc_prefix c) = inject_Z p /\
+   (is_std_name (uc_ref c) = true \/
+    (is_std_name (uc_ref c) = false /\ exists l', lookup w mi (uc_ref c) = Some (Defs l') /\
+       agree_cond f' w mi (uc_ref c) = true /\ (l' = [] \/ (inject_Z p == 0 /\ uc_mult c == 0)))).
+Proof.
+  intros f' w mi l c H Hin. rewrite forallb_forall in H. specialize (H c Hin).
+  apply andb_prop in H. destruct H as [H H3]. apply andb_prop in H. destruct H as [H1 H2].
+  split; [apply Qeq_bool_iff; exact H1|].
+  destruct (convert_prefix (uc_prefix c)) as [p|] eqn:Hp; [|discriminate]. exists p. split; [reflexivity|].
+  assert (Hpz : prefix_or_zero (uc_prefix c) = inject_Z p) by (unfold prefix_or_zero; rewrite Hp; reflexivity).
+  split; [exact Hpz|].
+  destruct (is_std_name (uc_ref c)) eqn:Hstd; [left; reflexivity|right]. split; [reflexivity|].
+  cbn [orb] in H3. destruct (lookup w mi (uc_ref c)) as [[l'|a b]|]; try discriminate.
+  apply andb_prop in H3. destruct H3 as [Ha Hb]. exists l'. split; [reflexivity|]. split; [exact Hb|].
+  apply orb_prop in Ha. destruct Ha as [Ha|Ha].
+  - left. destruct l'; [reflexivity|discriminate].
+  - right. unfold child_scale_free in Ha. rewrite Hpz in Ha. apply andb_prop in Ha. destruct Ha as [X Y].
+    split; apply Qeq_bool_iff; assumption.
+Qed.
+
+Definition si_term0 (f' : nat) (w : world) (mi : nat) (c : unit_child) : Q :=
+  uc_mult c + uc_exp c * (prefix_or_zero (uc_prefix c) +
+     (if is_std_name (uc_ref c) then std_mult (uc_ref c) else si_log false f' w mi (uc_ref c))).
+
+Lemma si_log_compound : forall f' w mi n c l, lookup w mi n = Some (Defs (c :: l)) ->
+  si_log false (S f') w mi n = sumq (map (si_term0 f' w mi) (c :: l)).
+Proof. intros f' w mi n c l H. rewrite si_log_S, H. reflexivity. Qed.
+
+Lemma si_log_leaf : forall f' w mi n, lookup w mi n = Some (Defs []) -> is_std_name n = false -> si_log false (S f') w mi n = 0.
+Proof. intros f' w mi n H Hs. rewrite si_log_S, H, Hs. reflexivity. Qed.
+
+Lemma is_base_defs : forall f' w mi n l, lookup w mi n = Some (Defs l) -> is_std_name n = false ->
+  is_base (S f') w mi n = Ok (Nat.eqb (length l) 0).
+Proof. intros f' w mi n l H Hs. unfold is_base. rewrite is_base_h_S, H, Hs, andb_true_r. reflexivity. Qed.
+
+Lemma agree_cond_inv : forall f' w mi n, agree_cond (S f') w mi n = true ->
+  is_std_name n = false /\ exists l, lookup w mi n = Some (Defs l) /\
+  forallb (fun c =>
+          Qeq_bool (uc_exp c) 1
+          && (match convert_prefix (uc_prefix c) with Some _ => true | None => false end)
+          && (is_std_name (uc_ref c)
+              || match lookup w mi (uc_ref c) with
+                 | Some (Defs l') => (Nat.eqb (length l') 0 || child_scale_free c) && agree_cond f' w mi (uc_ref c)
+                 | _ => false
+                 end)) l = true.
+Proof.
+  intros f' w mi n H. rewrite agree_cond_S in H. apply andb_prop in H. destruct H as [H1 H2].
+  apply negb_true_iff in H1. split; [exact H1|].
+  destruct (lookup w mi n) as [[l|a b]|]; try discriminate. exists l. split; [reflexivity|exact H2].
+Qed.
+
+(* Units: updateUnitMultiplier *)
+Lemma mult_go_agree : forall fx w f mi n, agree_cond f w mi n = true ->
+  exists u, mult_go fx f w mi n = Ok (Some u) /\ u == si_log false f w mi n.
+Proof.
+  intros fx w. induction f as [|f' IH]; intros mi n H; [discriminate|].
+  destruct (agree_cond_inv f' w mi n H) as [Hstd [l [Hl Hall]]].
+  rewrite mult_go_S, Hl. destruct l as [|c0 l0].
+  - cbn [length Nat.eqb]. rewrite Hstd, andb_false_r. exists 0. split; [reflexivity|].
+    rewrite (si_log_leaf f' w mi n Hl Hstd). reflexivity.
+  - cbn [length Nat.eqb]. rewrite (si_log_compound f' w mi n c0 l0 Hl).
+    destruct (fold_opt_sum_inv
+      (fun c s =>
+            match convert_prefix (uc_prefix c) with
+            | None => Ok None
+            | Some p =>
+                if is_std_name (uc_ref c)
+                then Ok (Some (s + (uc_mult c + std_mult (uc_ref c) * uc_exp c + inject_Z p)))
+                else match lookup w mi (uc_ref c) with
+                     | None => Ok None
+                     | Some _ => match mult_go fx f' w mi (uc_ref c) with
+                                 | Ok (Some b) => Ok (Some (s + (uc_mult c + (0 + b * 1) * uc_exp c + inject_Z p)))
+                                 | x => x
+                                 end
+                     end
+            end) (si_term0 f' w mi) (c0 :: l0)) with (s := 0) as [t [Ht Vt]].
+    + intros c s Hin. destruct (agree_child f' w mi (c0 :: l0) c Hall Hin) as [He [p [Hp [Hpz Hk]]]].
+      rewrite Hp. unfold si_term0. rewrite Hpz.
+      destruct Hk as [Hs|[Hs [l' [Hl' [Ha _]]]]]; rewrite Hs.
+      * eexists. split; [reflexivity|]. rewrite He. ring.
+      * rewrite Hl'. destruct (IH mi (uc_ref c) Ha) as [b [Hb Vb]]. rewrite Hb.
+        eexists. split; [reflexivity|]. rewrite He, Vb. ring.
+    + exists t. split; [exact Ht|]. rewrite Vt. ring.
+Qed.
+
+(* validator: updateBaseUnitCount *)
+Lemma val_go_agree : forall w f mi n uexp logmult dir s, agree_cond f w mi n = true ->
+  uexp == 1 -> (logmult == 0 \/ lookup w mi n = Some (Defs [])) -> has_base (fst s) ->
+  exists s', val_go f w mi n uexp logmult dir s = Ok s' /\ has_base (fst s') /\
+             snd s' == snd s + dir * (logmult + si_log false f w mi n).
+Proof.
+  intros w. induction f as [|f' IH]; intros mi n uexp logmult dir s H Hu Hlm Hb; [discriminate|].
+  destruct (agree_cond_inv f' w mi n H) as [Hstd [l [Hl Hall]]].
+  rewrite val_go_S, Hl, (is_base_defs f' w mi n l Hl Hstd). destruct l as [|c0 l0].
+  - cbn [length Nat.eqb]. eexists. split; [reflexivity|]. cbn [fst snd]. split; [apply has_base_madd; exact Hb|].
+    rewrite (si_log_leaf f' w mi n Hl Hstd). ring.
+  - cbn [length Nat.eqb]. destruct Hlm as [Hlm|Hlm]; [|rewrite Hl in Hlm; discriminate].
+    rewrite (si_log_compound f' w mi n c0 l0 Hl).
+    destruct (fold_res_sum_inv
+      (fun c s =>
+                  if negb (is_std_name (uc_ref c))
+                  then val_go f' w mi (uc_ref c) (uc_exp c * uexp)
+                         (logmult + uc_mult c * uexp + prefix_or_zero (uc_prefix c) * uexp) dir s
+                  else match at_add_std (uc_ref c) (dir * (uc_exp c * uexp)) (fst s) with
+                       | Ok m => Ok (m, snd s + dir * (logmult + (std_mult (uc_ref c) + uc_mult c + prefix_or_zero (uc_prefix c)) * uc_exp c))
+                       | OutOfFuel => OutOfFuel
+                       | Crash => Crash
+                       end)
+      (fun s : vstate => has_base (fst s)) (fun s : vstate => snd s) (fun c => dir * si_term0 f' w mi c) (c0 :: l0)) with (s := s)
+      as [s' [Hs' [Ps' Vs']]].
+    + intros c x Hin Px. destruct (agree_child f' w mi (c0 :: l0) c Hall Hin) as [He [p [Hp [Hpz Hk]]]].
+      unfold si_term0. rewrite Hpz.
+      destruct Hk as [Hs|[Hs [l' [Hl' [Ha Hsc]]]]]; rewrite Hs; cbn [negb].
+      * destruct (at_add_std_ok (uc_ref c) (dir * (uc_exp c * uexp)) (fst x) Px) as [m' [Hm' Bm']]. rewrite Hm'.
+        eexists. split; [reflexivity|]. cbn [fst snd]. split; [exact Bm'|]. rewrite He, Hlm. ring.
+      * assert (Hu' : uc_exp c * uexp == 1) by (rewrite He, Hu; ring).
+        assert (Hlm' : logmult + uc_mult c * uexp + inject_Z p * uexp == 0 \/ lookup w mi (uc_ref c) = Some (Defs [])).
+        { destruct Hsc as [->|[Hp0 Hm0]]; [right; exact Hl'|left]. rewrite Hlm, Hp0, Hm0. ring. }
+        destruct (IH mi (uc_ref c) (uc_exp c * uexp) (logmult + uc_mult c * uexp + inject_Z p * uexp) dir x Ha Hu' Hlm' Px)
+          as [x' [Hx' [Bx' Vx']]].
+        exists x'. split; [exact Hx'|]. split; [exact Bx'|]. rewrite Vx', He, Hu, Hlm. ring.
+    + exact Hb.
+    + exists s'. split; [exact Hs'|]. split; [exact Ps'|]. rewrite Vs', Hlm.
+      rewrite (sumq_scale (si_term0 f' w mi) dir (c0 :: l0)). ring.
+Qed.
+
+(* analyser: updateUnitsMultiplier *)
+Lemma ana_mult_go_agree : forall w f mi n e um acc, agree_cond f w mi n = true ->
+  e == 1 -> (um == 0 \/ lookup w mi n = Some (Defs [])) ->
+  exists r, ana_mult_go f w mi n e um acc = Ok r /\ r == acc + (um + si_log false f w mi n).
+Proof.
+  intros w. induction f as [|f' IH]; intros mi n e um acc H He Hum; [discriminate|].
+  destruct (agree_cond_inv f' w mi n H) as [Hstd [l [Hl Hall]]].
+  rewrite ana_mult_go_S, Hstd, Hl, (is_base_defs f' w mi n l Hl Hstd). destruct l as [|c0 l0].
+  - cbn [length Nat.eqb]. eexists. split; [reflexivity|]. rewrite (si_log_leaf f' w mi n Hl Hstd). ring.
+  - cbn [length Nat.eqb]. destruct Hum as [Hum|Hum]; [|rewrite Hl in Hum; discriminate].
+    rewrite (si_log_compound f' w mi n c0 l0 Hl).
+    destruct (fold_res_sum_inv
+      (fun c a =>
+                       if is_std_name (uc_ref c)
+                       then Ok (a + (um + (std_mult (uc_ref c) + uc_mult c + prefix_or_zero (uc_prefix c)) * uc_exp c * e))
+                       else ana_mult_go f' w mi (uc_ref c) (uc_exp c * e)
+                              (um + (uc_mult c + prefix_or_zero (uc_prefix c)) * e) a)
+      (fun _ : Q => True) (fun a : Q => a) (si_term0 f' w mi) (c0 :: l0)) with (s := acc) as [r [Hr [_ Vr]]].
+    + intros c x Hin _. destruct (agree_child f' w mi (c0 :: l0) c Hall Hin) as [Hec [p [Hp [Hpz Hk]]]].
+      unfold si_term0. rewrite Hpz.
+      destruct Hk as [Hs|[Hs [l' [Hl' [Ha Hsc]]]]]; rewrite Hs.
+      * eexists. split; [reflexivity|]. split; [exact I|]. rewrite Hec, He, Hum. ring.
+      * assert (He' : uc_exp c * e == 1) by (rewrite Hec, He; ring).
+        assert (Hum' : um + (uc_mult c + inject_Z p) * e == 0 \/ lookup w mi (uc_ref c) = Some (Defs [])).
+        { destruct Hsc as [->|[Hp0 Hm0]]; [right; exact Hl'|left]. rewrite Hum, Hp0, Hm0. ring. }
+        destruct (IH mi (uc_ref c) (uc_exp c * e) (um + (uc_mult c + inject_Z p) * e) x Ha He' Hum') as [x' [Hx' Vx']].
+        exists x'. split; [exact Hx'|]. split; [exact I|]. rewrite Vx', Hec, He, Hum. ring.
+    + exact I.
+    + exists r. split; [exact Hr|]. rewrite Vr, Hum. ring.
+Qed.
+
+Lemma has_base_init : has_base (map (fun b => (b, 0)) base_units_list).
+Proof.
+  intros b Hb Hn. apply assoc_none_keys in Hn. apply Hn.
+  replace (map fst (map (fun b0 : string => (b0, 0)) base_units_list)) with base_units_list by (vm_compute; reflexivity). exact Hb.
+Qed.
+
+(** On the fragment agree_cond, Units, the validator and the analyser compute the same log10 scale. *)
+Lemma three_agree_partial : forall fx f w mi n, agree_cond f w mi n = true ->
+  exists u v a, mult_go fx f w mi n = Ok (Some u) /\ val_scale f w mi n = Ok v /\ ana_scale f w mi n = Ok a /\
+                v == u /\ a == u.
+Proof.
+  intros fx f w mi n H.
+  destruct (mult_go_agree fx w f mi n H) as [u [Hu Vu]].
+  assert (Hl : exists d, lookup w mi n = Some d).
+  { destruct f as [|f']; [discriminate|]. destruct (agree_cond_inv f' w mi n H) as [_ [l [Hl _]]]. exists (Defs l). exact Hl. }
+  destruct Hl as [d Hl].
+  destruct (val_go_agree w f mi n 1 0 1 (map (fun b => (b, 0)) base_units_list, 0) H (Qeq_refl 1) (or_introl (Qeq_refl 0)) has_base_init)
+    as [s' [Hs' [_ Vs']]].
+  destruct (ana_mult_go_agree w f mi n 1 0 0 H (Qeq_refl 1) (or_introl (Qeq_refl 0))) as [r [Hr Vr]].
+  exists u, (snd s'), r. split; [exact Hu|]. split.
+  - unfold val_scale, val_side. rewrite Hl, Hs'. reflexivity.
+  - split; [exact Hr|]. split.
+    + rewrite Vs', Vu. cbn [snd]. ring.
+    + rewrite Vr, Vu. ring.
+Qed.
+
+(* outside the fragment: an exponent 2 on a prefixed child *)
+Lemma three_disagree_refuted :
+  exists fx f w mi n u v a, mult_go fx f w mi n = Ok (Some u) /\ val_scale f w mi n = Ok v /\ ana_scale f w mi n = Ok a /\
+                            ~ v == u /\ ~ a == u.
+Proof.
+  exists unfixed, 5%nat, w_mm, 0%nat, "mm2". do 3 eexists.
+  split; [vm_compute; reflexivity|]. split; [vm_compute; reflexivity|]. split; [vm_compute; reflexivity|].
+  split; vm_compute; discriminate.
+Qed.
+
+(* ... and with every exponent 1: a prefix on a reference to a units with two children is counted once per child *)
+Definition w_kilo : world :=
+  [ [("v", Defs [mk "metre" "" 1 0; mk "second" "" 1 0]); ("u", Defs [mk "v" "kilo" 1 0])] ].
+
+Lemma three_disagree_exponent_one_refuted :
+  exists fx f w mi n u v a, mult_go fx f w mi n = Ok (Some u) /\ val_scale f w mi n = Ok v /\ ana_scale f w mi n = Ok a /\
+                            u == 3 # 1 /\ v == 6 # 1 /\ a == 6 # 1.
+Proof.
+  exists unfixed, 5%nat, w_kilo, 0%nat, "u". do 3 eexists.
+  split; [vm_compute; reflexivity|]. split; [vm_compute; reflexivity|]. split; [vm_compute; reflexivity|].
+  split; [|split]; vm_compute; reflexivity.
+Qed.
+
+(* ------------------------------------------------------------------ termination on acyclic worlds *)
+
+Definition refers (w : world) (u v : uref) : Prop :=
+  match lookup w (fst u) (snd u) with
+  | Some (Import mj r) => v = (mj, r)
+  | Some (Defs l) => fst v = fst u /\ In (snd v) (map uc_ref l) /\ is_std_name (snd v) = false
+  | None => False
+  end.
+
+Fixpoint linked (w : world) (p : list uref) : Prop :=
+  match p with
+  | [] => True
+  | u :: q => lookup w (fst u) (snd u) <> None /\
+              match q with [] => True | v :: _ => refers w u v end /\ linked w q
+  end.
+
+Definition chain (w : world) (u : uref) (p : list uref) : Prop :=
+  match p with [] => True | x :: _ => x = u end /\ linked w p.
+
+Definition deep (w : world) (f : nat) (mi : nat) (n : string) : Prop := exists p, length p = f /\ chain w (mi, n) p.
+
+Lemma deep_O : forall w mi n, deep w 0 mi n.
+Proof. intros. exists []. split; [reflexivity|]. split; exact I. Qed.
+
+Lemma deep_S : forall w f' mi n mj r, lookup w mi n <> None -> refers w (mi, n) (mj, r) -> deep w f' mj r -> deep w (S f') mi n.
+Proof.
+  intros w f' mi n mj r Hl Hr [p [Hlen [Hh Hp]]]. exists ((mi, n) :: p). split; [cbn; rewrite Hlen; reflexivity|].
+  split; [reflexivity|]. cbn [linked fst snd]. split; [exact Hl|]. split; [|exact Hp].
+  destruct p as [|x q]; [exact I|]. rewrite Hh. exact Hr.
+Qed.
+
+Lemma refers_import : forall w mi n mj r, lookup w mi n = Some (Import mj r) -> refers w (mi, n) (mj, r).
+Proof. intros w mi n mj r H. unfold refers. cbn [fst snd]. rewrite H. reflexivity. Qed.
+
+Lemma refers_child : forall w mi n l c, lookup w mi n = Some (Defs l) -> In c l -> is_std_name (uc_ref c) = false ->
+  refers w (mi, n) (mi, uc_ref c).
+Proof.
+  intros w mi n l c H Hin Hs. unfold refers. cbn [fst snd]. rewrite H. split; [reflexivity|]. split; [|exact Hs].
+  apply in_map. exact Hin.
+Qed.
+
+Lemma fold_res_oof : forall {A S} (step : A -> S -> res S) l s,
+  fold_res step l s = OutOfFuel -> exists c s', In c l /\ step c s' = OutOfFuel.
+Proof.
+  intros A S step l. induction l as [|a r IH]; intros s H; cbn in H; [discriminate|].
+  destruct (step a s) as [s1| |] eqn:Hs; try discriminate.
+  - destruct (IH s1 H) as [c [s' [Hin Hc]]]. exists c, s'. split; [right; exact Hin|exact Hc].
+  - exists a, s. split; [left; reflexivity|exact Hs].
+Qed.
+
+Lemma fold_opt_oof : forall {A S} (step : A -> S -> res (option S)) l s,
+  fold_opt step l s = OutOfFuel -> exists c s', In c l /\ step c s' = OutOfFuel.
+Proof.
+  intros A S step l. induction l as [|a r IH]; intros s H; cbn in H; [discriminate|].
+  destruct (step a s) as [[s1|]| |] eqn:Hs; try discriminate.
+  - destruct (IH s1 H) as [c [s' [Hin Hc]]]. exists c, s'. split; [right; exact Hin|exact Hc].
+  - exists a, s. split; [left; reflexivity|exact Hs].
+Qed.
+
+Lemma some_neq_none : forall {A} (x : A) o, o = Some x -> o <> None.
+Proof. intros A x o -> H. discriminate. Qed.
+
+Lemma is_base_h_deep : forall w f h mi n, is_base_h f w h mi n = OutOfFuel -> deep w f mi n.
+Proof.
+  intros w. induction f as [|f' IH]; intros h mi n H; [apply deep_O|].
+  rewrite is_base_h_S in H. destruct (lookup w mi n) as [[l|mj r]|] eqn:Hl; try discriminate.
+  destruct (Nat.ltb mj (length w)); [|discriminate]. cbv zeta in H.
+  destruct (import_cycle w h (new_epoch h mi mj)); [discriminate|].
+  destruct (lookup w mj r) eqn:Ht; [|discriminate].
+  apply (deep_S w f' mi n mj r (some_neq_none _ _ Hl) (refers_import w mi n mj r Hl)). apply (IH _ _ _ H).
+Qed.
+
+Lemma perform_test_deep : forall w d f h mi n, perform_test d f w h mi n = OutOfFuel -> deep w f mi n.
+Proof.
+  intros w d. induction f as [|f' IH]; intros h mi n H; [apply deep_O|].
+  rewrite perform_test_S in H. destruct (lookup w mi n) as [[l|mj r]|] eqn:Hl; try discriminate.
+  - apply fold_opt_oof in H. destruct H as [c [h' [Hin Hc]]].
+    destruct (is_std_name (uc_ref c)) eqn:Hs; [discriminate|].
+    destruct (lookup w mi (uc_ref c)) eqn:Ht; [|destruct d; discriminate].
+    apply (deep_S w f' mi n mi (uc_ref c) (some_neq_none _ _ Hl) (refers_child w mi n l c Hl Hin Hs)). apply (IH _ _ _ Hc).
+  - destruct (lookup w mj r) eqn:Ht; [|discriminate]. cbv zeta in H.
+    destruct (import_cycle w h (new_epoch h mi mj)); [discriminate|].
+    apply (deep_S w f' mi n mj r (some_neq_none _ _ Hl) (refers_import w mi n mj r Hl)). apply (IH _ _ _ H).
+Qed.
+
+Lemma umap_go_deep : forall fx w f mi n e acc, umap_go fx f w mi n e acc = OutOfFuel -> deep w f mi n.
+Proof.
+  intros fx w. induction f as [|f' IH]; intros mi n e acc H; [apply deep_O|].
+  rewrite umap_go_S in H. destruct (is_base (S f') w mi n) as [[|]| |] eqn:Hb; try discriminate.
+  - destruct (lookup w mi n) as [[l|mj r]|] eqn:Hl; try discriminate.
+    + destruct (Nat.eqb (length l) 0 && is_std_name n); [discriminate|].
+      apply fold_res_oof in H. destruct H as [c [a [Hin Hc]]].
+      destruct (is_std_name (uc_ref c)) eqn:Hs; [discriminate|].
+      destruct (lookup w mi (uc_ref c)) eqn:Ht; [|discriminate].
+      apply (deep_S w f' mi n mi (uc_ref c) (some_neq_none _ _ Hl) (refers_child w mi n l c Hl Hin Hs)). apply (IH _ _ _ _ Hc).
+    + destruct (is_std_name n); [discriminate|]. destruct (lookup w mj r) eqn:Ht; [|discriminate].
+      apply (deep_S w f' mi n mj r (some_neq_none _ _ Hl) (refers_import w mi n mj r Hl)). apply (IH _ _ _ _ H).
+  - apply (is_base_h_deep w (S f') [] mi n Hb).
+Qed.
+
+Lemma test_result_oof : forall r, test_result r = OutOfFuel -> r = OutOfFuel.
+Proof. intros [[h|]| |] H; try discriminate. reflexivity. Qed.
+
+Lemma mult_go_deep : forall fx w f mi n, mult_go fx f w mi n = OutOfFuel -> deep w f mi n.
+Proof.
+  intros fx w. induction f as [|f' IH]; intros mi n H; [apply deep_O|].
+  rewrite mult_go_S in H. destruct (lookup w mi n) as [[l|mj r]|] eqn:Hl; try discriminate.
+  - destruct (Nat.eqb (length l) 0); [discriminate|].
+    apply fold_opt_oof in H. destruct H as [c [s [Hin Hc]]].
+    destruct (convert_prefix (uc_prefix c)); [|discriminate].
+    destruct (is_std_name (uc_ref c)) eqn:Hs; [discriminate|].
+    destruct (lookup w mi (uc_ref c)) eqn:Ht; [|discriminate].
+    destruct (mult_go fx f' w mi (uc_ref c)) as [[b|]| |] eqn:Hb; try discriminate.
+    apply (deep_S w f' mi n mi (uc_ref c) (some_neq_none _ _ Hl) (refers_child w mi n l c Hl Hin Hs)). apply (IH _ _ Hb).
+  - destruct (is_resolved (S f') w mi n) as [[|]| |] eqn:Hr; try discriminate.
+    + destruct (lookup w mj r) eqn:Ht; [|discriminate].
+      destruct (mult_go fx f' w mj r) as [[b|]| |] eqn:Hb; try discriminate.
+      apply (deep_S w f' mi n mj r (some_neq_none _ _ Hl) (refers_import w mi n mj r Hl)). apply (IH _ _ Hb).
+    + unfold is_resolved in Hr. apply test_result_oof in Hr. apply (perform_test_deep w false (S f') [] mi n Hr).
+Qed.
+
+Lemma at_add_std_not_oof : forall n d m, at_add_std n d m <> OutOfFuel.
+Proof.
+  intros n d m H. unfold at_add_std in H. apply fold_res_oof in H. destruct H as [c [s [_ Hc]]].
+  unfold at_add in Hc. destruct (assoc (fst c) s); discriminate.
+Qed.
+
+Lemma val_go_deep : forall w f mi n uexp logmult dir s, val_go f w mi n uexp logmult dir s = OutOfFuel -> deep w f mi n.
+Proof.
+  intros w. induction f as [|f' IH]; intros mi n uexp logmult dir s H; [apply deep_O|].
+  rewrite val_go_S in H. destruct (lookup w mi n) as [d|] eqn:Hl.
+  - destruct (is_base (S f') w mi n) as [[|]| |] eqn:Hb; try discriminate.
+    + destruct d as [l|mj r]; [|discriminate].
+      apply fold_res_oof in H. destruct H as [c [x [Hin Hc]]].
+      destruct (is_std_name (uc_ref c)) eqn:Hs; cbn [negb] in Hc.
+      * destruct (at_add_std (uc_ref c) (dir * (uc_exp c * uexp)) (fst x)) eqn:Ha; try discriminate.
+        exfalso. apply (at_add_std_not_oof _ _ _ Ha).
+      * apply (deep_S w f' mi n mi (uc_ref c) (some_neq_none _ _ Hl) (refers_child w mi n l c Hl Hin Hs)). apply (IH _ _ _ _ _ _ Hc).
+    + apply (is_base_h_deep w (S f') [] mi n Hb).
+  - destruct (is_std_name n); [|discriminate].
+    destruct (at_add_std n (dir * uexp) (fst s)) eqn:Ha; try discriminate. exfalso. apply (at_add_std_not_oof _ _ _ Ha).
+Qed.
+
+Lemma ana_map_go_S : forall f' w mi name e acc, ana_map_go (S f') w mi name e acc =
+    if is_std_name name then Ok (add_std name e acc)
+    else match lookup w mi name with
+         | None => Crash
+         | Some d =>
+             match is_base (S f') w mi name with
+             | Ok true => Ok (madd name e acc)
+             | Ok false =>
+                 match d with
+                 | Import _ _ => Ok acc
+                 | Defs l =>
+                     fold_res (fun c a =>
+                       if is_std_name (uc_ref c) then Ok (add_std (uc_ref c) (uc_exp c * e) a)
+                       else ana_map_go f' w mi (uc_ref c) (uc_exp c * e) a) l acc
+                 end
+             | OutOfFuel => OutOfFuel
+             | Crash => Crash
+             end
+         end.
+Proof. reflexivity. Qed.
+
+(* the analyser does not test that a referenced units exists before recursing (a missing one is a null dereference) *)
+Lemma deep_1 : forall w mi n, lookup w mi n <> None -> deep w 1 mi n.
+Proof.
+  intros w mi n H. exists [(mi, n)]. split; [reflexivity|]. split; [reflexivity|]. cbn. split; [exact H|]. split; exact I.
+Qed.
+
+Lemma ana_map_go_deep : forall w f mi n e acc, ana_map_go (S f) w mi n e acc = OutOfFuel -> deep w (S f) mi n.
+Proof.
+  intros w. induction f as [|f' IH]; intros mi n e acc H.
+  - rewrite ana_map_go_S in H. destruct (is_std_name n); [discriminate|].
+    destruct (lookup w mi n) as [d|] eqn:Hl; [|discriminate]. apply deep_1. rewrite Hl. discriminate.
+  - rewrite ana_map_go_S in H. destruct (is_std_name n) eqn:Hsn; [discriminate|].
+    destruct (lookup w mi n) as [d|] eqn:Hl; [|discriminate].
+    destruct (is_base (S (S f')) w mi n) as [[|]| |] eqn:Hb; try discriminate.
+    + destruct d as [l|mj r]; [|discriminate].
+      apply fold_res_oof in H. destruct H as [c [x [Hin Hc]]].
+      destruct (is_std_name (uc_ref c)) eqn:Hs; [discriminate|].
+      apply (deep_S w (S f') mi n mi (uc_ref c) (some_neq_none _ _ Hl) (refers_child w mi n l c Hl Hin Hs)). apply (IH _ _ _ _ Hc).
+    + apply (is_base_h_deep w (S (S f')) [] mi n Hb).
+Qed.
+
+Lemma ana_mult_go_deep : forall w f mi n e um acc, ana_mult_go (S f) w mi n e um acc = OutOfFuel -> deep w (S f) mi n.
+Proof.
+  intros w. induction f as [|f' IH]; intros mi n e um acc H.
+  - rewrite ana_mult_go_S in H. destruct (is_std_name n); [discriminate|].
+    destruct (lookup w mi n) as [d|] eqn:Hl; [|discriminate]. apply deep_1. rewrite Hl. discriminate.
+  - rewrite ana_mult_go_S in H. destruct (is_std_name n) eqn:Hsn; [discriminate|].
+    destruct (lookup w mi n) as [d|] eqn:Hl; [|discriminate].
+    destruct (is_base (S (S f')) w mi n) as [[|]| |] eqn:Hb; try discriminate.
+    + destruct d as [l|mj r]; [|discriminate].
+      apply fold_res_oof in H. destruct H as [c [x [Hin Hc]]].
+      destruct (is_std_name (uc_ref c)) eqn:Hs; [discriminate|].
+      apply (deep_S w (S f') mi n mi (uc_ref c) (some_neq_none _ _ Hl) (refers_child w mi n l c Hl Hin Hs)). apply (IH _ _ _ _ _ Hc).
+    + apply (is_base_h_deep w (S (S f')) [] mi n Hb).
+Qed.
+
+(* pigeonhole: a linked path longer than the world repeats a units object, which is a cycle *)
+Fixpoint nodes_from (i : nat) (w : world) : list uref :=
+  match w with
+  | [] => []
+  | e :: r => (map (fun kv => (i, fst kv)) e ++ nodes_from (S i) r)%list
+  end.
+
+Lemma fold_left_size : forall (w : world) a, fold_left (fun n e => (n + length e)%nat) w a = (a + fold_left (fun n e => (n + length e)%nat) w 0)%nat.
+Proof.
+  induction w as [|e r IH]; intros a; cbn; [lia|]. rewrite (IH (a + length e)%nat), (IH (length e)). lia.
+Qed.
+
+Lemma length_nodes_from : forall w i, length (nodes_from i w) = world_size w.
+Proof.
+  unfold world_size. induction w as [|e r IH]; intros i; cbn; [reflexivity|].
+  rewrite app_length, map_length, IH, (fold_left_size r (length e)). reflexivity.
+Qed.
+
+Lemma lookup_in_nodes : forall w i mi n, lookup w mi n <> None -> In ((i + mi)%nat, n) (nodes_from i w).
+Proof.
+  unfold lookup. induction w as [|e r IH]; intros i mi n H.
+  - destruct mi; cbn in H; contradiction H; reflexivity.
+  - destruct mi as [|mi']; cbn [nth_error nodes_from] in *; apply in_or_app.
+    + left. rewrite Nat.add_0_r. destruct (assoc n e) as [d|] eqn:Ha; [|contradiction H; reflexivity].
+      apply assoc_In in Ha. apply (in_map (fun kv : string * udef => (i, fst kv))) in Ha. exact Ha.
+    + right. replace (i + S mi')%nat with (S i + mi')%nat by lia. apply IH. exact H.
+Qed.
+
+Lemma uref_eq_dec : forall a b : uref, {a = b} + {a <> b}.
+Proof. decide equality; [apply string_dec|apply Nat.eq_dec]. Qed.
+
+Lemma not_nodup_split : forall l : list uref, ~ NoDup l -> exists x l1 l2 l3, l = (l1 ++ x :: l2 ++ x :: l3)%list.
+Proof.
+  induction l as [|a r IH]; intros H; [contradiction H; constructor|].
+  destruct (in_dec uref_eq_dec a r) as [Hin|Hnin].
+  - apply in_split in Hin. destruct Hin as [l2 [l3 ->]]. exists a, [], l2, l3. reflexivity.
+  - assert (Hr : ~ NoDup r) by (intros Hn; apply H; constructor; assumption).
+    destruct (IH Hr) as [x [l1 [l2 [l3 ->]]]]. exists x, (a :: l1), l2, l3. reflexivity.
+Qed.
+
+Lemma linked_head : forall w y q, linked w (y :: q) -> lookup w (fst y) (snd y) <> None.
+Proof. intros w y q [H _]. exact H. Qed.
+
+Lemma linked_suffix : forall w l1 q, linked w (l1 ++ q)%list -> linked w q.
+Proof.
+  intros w l1 q. induction l1 as [|a r IH]; intros H; [exact H|]. apply IH. cbn [app linked] in H. apply H.
+Qed.
+
+Lemma linked_all_exist : forall w p x, linked w p -> In x p -> lookup w (fst x) (snd x) <> None.
+Proof.
+  intros w p x. induction p as [|a r IH]; intros H Hin; [destruct Hin|].
+  destruct Hin as [<-|Hin]; [apply (linked_head w a r H)|]. apply IH; [apply H|exact Hin].
+Qed.
+
+Lemma edge_of_refers : forall w u v, refers w u v -> lookup w (fst v) (snd v) <> None -> edge w u v.
+Proof.
+  intros w u v Hr Hv. unfold refers in Hr. unfold edge.
+  destruct (lookup w (fst u) (snd u)) as [[l|mj r]|]; [| |exact Hr].
+  - destruct Hr as [A [B C]]. auto.
+  - subst v. cbn [fst snd] in Hv. split; [reflexivity|exact Hv].
+Qed.
+
+Lemma linked_path : forall w l2 x y l3, linked w (x :: l2 ++ y :: l3)%list -> clos_trans uref (edge w) x y.
+Proof.
+  intros w. induction l2 as [|c l2' IH]; intros x y l3 H.
+  - cbn [app linked] in H. destruct H as [_ [Hr Hq]]. apply t_step. apply (edge_of_refers w x y Hr). apply Hq.
+  - cbn [app] in H. pose proof H as [_ [Hr Hq]]. cbn [app] in Hq. fold linked in Hq.
+    apply (t_trans _ _ x c y).
+    + apply t_step. apply (edge_of_refers w x c Hr). apply (linked_head w c _ Hq).
+    + apply (IH c y l3 Hq).
+Qed.
+
+Lemma acyclic_not_deep : forall w f mi n, acyclic w -> (world_size w < f)%nat -> ~ deep w f mi n.
+Proof.
+  intros w f mi n Hac Hf [p [Hlen [_ Hp]]].
+  assert (Hnd : ~ NoDup p).
+  { intros Hn. assert (Hincl : incl p (nodes_from 0 w)).
+    { intros x Hx. pose proof (lookup_in_nodes w 0 (fst x) (snd x) (linked_all_exist w p x Hp Hx)) as Hin.
+      cbn [Nat.add] in Hin. destruct x. exact Hin. }
+    pose proof (NoDup_incl_length Hn Hincl) as L. rewrite length_nodes_from in L. lia. }
+  destruct (not_nodup_split p Hnd) as [x [l1 [l2 [l3 ->]]]].
+  apply linked_suffix in Hp. apply (Hac x). apply (linked_path w l2 x x l3 Hp).
+Qed.
+
+(** On an acyclic world, fuel above the number of units objects is never exhausted, by any of the reducers. *)
+Lemma reducers_terminate : forall fx f w, acyclic w -> (world_size w < f)%nat ->
+  (forall a b, compatible fx f w a b <> OutOfFuel /\ scaling_factor fx f w a b <> OutOfFuel /\ equivalent fx f w a b <> OutOfFuel) /\
+  (forall mi n1 n2, val_equiv f w mi n1 n2 <> OutOfFuel /\ ana_equiv f w mi n1 n2 <> OutOfFuel) /\
+  (forall mi n, is_base f w mi n <> OutOfFuel /\ is_defined f w mi n <> OutOfFuel /\
+                define_units_map fx f w (mi, n) <> OutOfFuel /\ mult_go fx f w mi n <> OutOfFuel).
+Proof.
+  intros fx f w Hac Hf.
+  assert (ND : forall mi n, ~ deep w f mi n) by (intros mi n; apply acyclic_not_deep; assumption).
+  assert (B : forall mi n, is_base f w mi n <> OutOfFuel) by (intros mi n H; apply (ND mi n), (is_base_h_deep w f [] mi n H)).
+  assert (D : forall mi n, is_defined f w mi n <> OutOfFuel).
+  { intros mi n H. unfold is_defined in H. apply test_result_oof in H. apply (ND mi n), (perform_test_deep w true f [] mi n H). }
+  assert (M : forall u, define_units_map fx f w u <> OutOfFuel).
+  { intros u H. unfold define_units_map in H. destruct (umap_go fx f w (fst u) (snd u) 1 []) eqn:Hg; try discriminate.
+    apply (ND (fst u) (snd u)), (umap_go_deep fx w f _ _ _ _ Hg). }
+  assert (U : forall mi n, mult_go fx f w mi n <> OutOfFuel) by (intros mi n H; apply (ND mi n), (mult_go_deep fx w f mi n H)).
+  assert (C : forall a b, compatible fx f w a b <> OutOfFuel).
+  { intros [a|] [b|] H; try discriminate. unfold compatible in H.
+    destruct (is_defined f w (fst a) (snd a)) as [[|]| |] eqn:Da; try discriminate; [|apply (D _ _ Da)].
+    destruct (is_defined f w (fst b) (snd b)) as [[|]| |] eqn:Db; try discriminate; [|apply (D _ _ Db)].
+    destruct (define_units_map fx f w a) eqn:Ma; try discriminate; [|apply (M _ Ma)].
+    destruct (define_units_map fx f w b) eqn:Mb; try discriminate. apply (M _ Mb). }
+  assert (SF : forall a b, scaling_factor fx f w a b <> OutOfFuel).
+  { intros a b H. unfold scaling_factor in H. destruct (compatible fx f w a b) as [[|]| |] eqn:Hc; try discriminate; [|apply (C _ _ Hc)].
+    destruct a as [a|]; [|discriminate]. destruct b as [b|]; [|discriminate].
+    destruct (mult_go fx f w (fst a) (snd a)) as [r1| |] eqn:H1; try discriminate; [|apply (U _ _ H1)].
+    destruct (mult_go fx f w (fst b) (snd b)) as [r2| |] eqn:H2; try discriminate; [|apply (U _ _ H2)].
+    destruct r1; destruct r2; discriminate. }
+  split; [|split].
+  - intros a b. split; [apply C|]. split; [apply SF|]. intros H. unfold equivalent in H.
+    destruct (scaling_factor fx f w a b) as [[|q]| |] eqn:Hs; try discriminate. apply (SF _ _ Hs).
+  - assert (VS : forall mi n dir s, val_side f w mi n dir s <> OutOfFuel).
+    { intros mi n dir s H. unfold val_side in H. destruct (lookup w mi n).
+      - apply (ND mi n), (val_go_deep w f _ _ _ _ _ _ H).
+      - destruct (assoc n (fst s)); [discriminate|]. destruct (is_std_name n); [|discriminate].
+        apply (ND mi n), (val_go_deep w f _ _ _ _ _ _ H). }
+    intros mi n1 n2. split.
+    + intros H. unfold val_equiv in H.
+      destruct (val_side f w mi n1 1 _) eqn:H1; try discriminate; [|apply (VS _ _ _ _ H1)].
+      destruct (val_side f w mi n2 (-1 # 1) _) eqn:H2; try discriminate. apply (VS _ _ _ _ H2).
+    + destruct f as [|f0]; [lia|].
+      assert (AM : forall n, ana_map (S f0) w mi n <> OutOfFuel) by (intros n H; apply (ND mi n), (ana_map_go_deep w f0 _ _ _ _ H)).
+      assert (AS : forall n, ana_scale (S f0) w mi n <> OutOfFuel) by (intros n H; apply (ND mi n), (ana_mult_go_deep w f0 _ _ _ _ _ H)).
+      intros H. unfold ana_equiv in H.
+      destruct (ana_map (S f0) w mi n1) eqn:E1; [|exfalso; apply (AM _ E1)|];
+      destruct (ana_map (S f0) w mi n2) eqn:E2; try (exfalso; apply (AM _ E2));
+      destruct (ana_scale (S f0) w mi n1) eqn:E3; try (exfalso; apply (AS _ E3));
+      destruct (ana_scale (S f0) w mi n2) eqn:E4; try (exfalso; apply (AS _ E4)); discriminate.
+  - intros mi n. split; [apply B|]. split; [apply D|]. split; [apply M|apply U].
+Qed.
+
+(* ------------------------------------------------------------------ isDefined is complete without imports *)
+
+Lemma perform_test_import_free : forall w, import_free w -> forall f h mi n,
+  defined_sem f w mi n = Ok true -> perform_test true f w h mi n = Ok (Some h).
+Proof.
+  intros w Hfree. induction f as [|f' IH]; intros h mi n H; [discriminate|].
+  pose proof H as H0. rewrite defined_sem_S in H. rewrite perform_test_S.
+  destruct (lookup w mi n) as [[l|mj r]|] eqn:Hl; [| |discriminate].
+  - rewrite forall_res_true in H. clear Hl H0. induction l as [|c rest IHl]; [reflexivity|].
+    cbn [fold_opt]. pose proof (H c (or_introl eq_refl)) as Hc.
+    destruct (is_std_name (uc_ref c)).
+    + apply IHl. intros a Hin. apply H. right. exact Hin.
+    + destruct (lookup w mi (uc_ref c)); [|discriminate]. rewrite (IH h mi (uc_ref c) Hc).
+      apply IHl. intros a Hin. apply H. right. exact Hin.
+  - exfalso. apply (Hfree mi n mj r Hl).
+Qed.
+
+Lemma is_defined_complete_partial : forall f w mi n, import_free w ->
+  defined_sem f w mi n = Ok true -> is_defined f w mi n = Ok true.
+Proof.
+  intros f w mi n Hfree H. unfold is_defined. rewrite (perform_test_import_free w Hfree f [] mi n H). reflexivity.
+Qed.
+
+(* ------------------------------------------------------------------ the defining equations of the dimension (indirection) *)
+
+Lemma dim_compound : forall f' w mi n l k, lookup w mi n = Some (Defs l) -> is_base (S f') w mi n = Ok false ->
+  Nat.eqb (length l) 0 && is_std_name n = false ->
+  dim (S f') w mi n k = sumq (map (fun c => uc_exp c * (if is_std_name (uc_ref c) then std_dim (uc_ref c) k
+                                                       else dim f' w mi (uc_ref c) k)) l).
+Proof. intros f' w mi n l k Hl Hb Hs. rewrite dim_S, Hb, Hl, Hs. reflexivity. Qed.
+
+Lemma dim_import : forall f' w mi n mj r k, lookup w mi n = Some (Import mj r) -> is_base (S f') w mi n = Ok false ->
+  is_std_name n = false -> dim (S f') w mi n k = dim f' w mj r k.
+Proof. intros f' w mi n mj r k Hl Hb Hs. rewrite dim_S, Hb, Hl, Hs. reflexivity. Qed.
+
+(* ------------------------------------------------------------------ non-vacuity *)
+
+Lemma acyclic_w_mm : acyclic w_mm.
+Proof.
+  set (rank := fun u : uref => if String.eqb (snd u) "mm_sq" then 1%nat else 0%nat).
+  assert (E : forall u v, edge w_mm u v -> (rank v < rank u)%nat).
+  { intros [mi n] [mj m] H. unfold edge in H. cbn [fst snd] in H. unfold rank. cbn [snd].
+    destruct mi as [|mi]; [|destruct mi; cbn in H; contradiction].
+    unfold lookup, w_mm in H. cbn [nth_error assoc] in H.
+    destruct (String.eqb_spec n "mm2") as [->|N1].
+    { destruct H as [_ [[<-|[]] [Hs _]]]. vm_compute in Hs. discriminate. }
+    destruct (String.eqb_spec n "m2") as [->|N2].
+    { destruct H as [_ [[<-|[]] [Hs _]]]. vm_compute in Hs. discriminate. }
+    destruct (String.eqb_spec n "mm") as [->|N3].
+    { destruct H as [_ [[<-|[]] [Hs _]]]. vm_compute in Hs. discriminate. }
+    destruct (String.eqb_spec n "mm_sq") as [->|N4]; [|contradiction].
+    destruct H as [_ [[<-|[]] _]]. cbn. lia. }
+  assert (T : forall u v, clos_trans uref (edge w_mm) u v -> (rank v < rank u)%nat).
+  { intros u v H. induction H as [u v H|u v x _ IH1 _ IH2]; [apply E; exact H|lia]. }
+  intros u H. specialize (T u u H). lia.
+Qed.
+
+Lemma nonvacuous :
+  compatible unfixed 5 w_mm (Some (0%nat, "mm_sq")) (Some (0%nat, "m2")) = Ok true /\
+  scaling_factor unfixed 5 w_mm (Some (0%nat, "mm_sq")) (Some (0%nat, "m2")) = Ok (FPow (6 # 1)) /\
+  equivalent unfixed 5 w_mm (Some (0%nat, "mm2")) (Some (0%nat, "mm2")) = Ok true /\
+  agree_cond 5 w_mm 0 "mm" = true /\ si_cond 5 w_mm 0 "mm" = true /\ imports_scale_ok unfixed 5 w_mm 0 "mm" = true /\
+  acyclic w_mm /\ (world_size w_mm < 5)%nat /\ import_free w_mm /\ no_bare_std_scaled w_mm /\
+  is_defined 5 w_import 0 "I2" = Ok true.
+Proof.
+  repeat (split; [vm_compute; reflexivity|]). split; [exact acyclic_w_mm|]. split; [vm_compute; lia|]. split; [|split].
+  - intros mi n a b H. destruct mi as [|[|mi]]; cbn in H; try discriminate.
+    unfold lookup, w_mm in H. cbn [nth_error assoc] in H.
+    repeat match type of H with context [String.eqb n ?s] => destruct (String.eqb n s); try discriminate end.
+  - intros mi n H Hs. destruct mi as [|[|mi]]; cbn in H; try discriminate.
+    unfold lookup, w_mm in H. cbn [nth_error assoc] in H.
+    repeat match type of H with context [String.eqb n ?s] => destruct (String.eqb n s); try discriminate end.
+  - vm_compute. reflexivity.
+Qed.
